@@ -182,13 +182,13 @@ Lemma ainp_comm w c d hc hd w1 w12 : c <> d -> 0 <= Heap.cnt w -> 0 <= hc -> 0 <
 Proof.
   intros Hne Hc Hhc Hhd. unfold Heap.addIfNotPresent.
   destruct (Heap.mem w c) eqn:Ec.
-  - intros [= <-]. rewrite Ec. destruct (Heap.mem w d) eqn:Ed.
-    + intros [= <-]. exists w, w. rewrite Ec. repeat split; auto using heap_sim_refl.
+  - intros [= <-]. destruct (Heap.mem w d) eqn:Ed.
+    + intros [= <-]. exists w, w. rewrite Ec. (split; [|split]; auto using heap_sim_refl).
     + intros H. exists w12, w12. rewrite (add_mem_other _ _ _ _ c Hhd H) by congruence. rewrite Ec.
-      repeat split; auto using heap_sim_refl.
+      (split; [|split]; auto using heap_sim_refl).
   - intros H1. rewrite (add_mem_other _ _ _ _ d Hhc H1) by congruence.
     destruct (Heap.mem w d) eqn:Ed.
-    + intros [= <-]. exists w, w1. rewrite Ec. repeat split; auto using heap_sim_refl.
+    + intros [= <-]. exists w, w1. rewrite Ec. (split; [|split]; auto using heap_sim_refl).
     + intros H12. destruct (add_comm _ _ _ _ _ _ _ Hne Hc Hhc Hhd H1 H12) as (w2 & w21 & G1 & G2 & G3).
       exists w2, w21. rewrite (add_mem_other _ _ _ _ c Hhd G1) by congruence. rewrite Ec. auto.
 Qed.
@@ -240,8 +240,8 @@ Proof.
     apply rbind_ok in H as (w01 & H01 & H1).
     assert (Hhx : 0 <= hf x) by (apply Hh; right; left).
     assert (Hhy : 0 <= hf y) by (apply Hh; left).
-    assert (Hrest : forall u u1, heap_sim w01 u -> exists v1, addAll hf l u = Ok v1 /\ heap_sim w1 v1).
-    { intros u u1 Su. clear u1.
+    assert (Hrest : forall u, heap_sim w01 u -> exists v1, addAll hf l u = Ok v1 /\ heap_sim w1 v1).
+    { intros u Su.
       assert (Hl : forall c, c ∈ l -> 0 <= hf c) by (intros; apply Hh; right; right; assumption).
       assert (Hc01 : 0 <= Heap.cnt w01).
       { eapply ainp_cnt; [exact Hhx| |exact H01]. eapply ainp_cnt; [exact Hhy|exact Hc|exact H0]. }
@@ -258,14 +258,1333 @@ Proof.
       destruct (ainp_sim _ _ _ _ _ Hs Hhx H0) as (v0 & G0 & S0).
       assert (Hc0 : 0 <= Heap.cnt w0) by (eapply ainp_cnt; [exact Hhx|exact Hc|exact H0]).
       destruct (ainp_sim _ _ _ _ _ S0 Hhx H01) as (v01 & G01 & S01).
-      rewrite !addAll_cons, G0. simpl. rewrite addAll_cons, G01. simpl. apply (Hrest v01 v01 S01).
+      rewrite !addAll_cons, G0. simpl. rewrite addAll_cons, G01. simpl. apply (Hrest v01 S01).
     + destruct (ainp_comm _ _ _ _ _ _ _ Hne Hc Hhy Hhx H0 H01) as (w2 & w21 & G1 & G2 & G3).
       destruct (ainp_sim _ _ _ _ _ Hs Hhx G1) as (v2 & F1 & T1).
       destruct (ainp_sim _ _ _ _ _ T1 Hhy G2) as (v21 & F2 & T2).
       rewrite !addAll_cons, F1. simpl. rewrite addAll_cons, F2. simpl.
-      apply (Hrest v21 v21). eapply heap_sim_trans; [exact G3|exact T2].
+      apply (Hrest v21). eapply heap_sim_trans; [exact G3|exact T2].
   - destruct (IH1 w w w1 Hh Hc (heap_sim_refl w) H) as (u1 & U1 & SU1).
     assert (Hh' : forall c, c ∈ l' -> 0 <= hf c) by (intros c Hin; apply Hh; rewrite Hp1; exact Hin).
     destruct (IH2 w v u1 Hh' Hc Hs U1) as (v1 & V1 & SV1).
     exists v1. split; [exact V1|]. eapply heap_sim_trans; eassumption.
+Qed.
+
+(** * C. recomputeNodeParallel on a non-lhs node under a quiet plan *)
+
+Lemma valueOf_vsrc_ fuel s n :
+  valueOf_ fuel s n = match vsrc_ fuel s n with Some m => value (nd s m) | None => 0 end.
+Proof.
+  revert n. induction fuel as [|fuel IH]; intros n; [reflexivity|]. cbn [valueOf_ vsrc_].
+  destruct (nkind (nd s n)); try reflexivity. destruct (decl (nd s n)); [reflexivity|apply IH].
+Qed.
+
+Lemma valueOf_vsrc s n : valueOf s n = match vsrc s n with Some m => value (nd s m) | None => 0 end.
+Proof. apply valueOf_vsrc_. Qed.
+
+(** two states whose nodes have the same kinds and declared inputs *)
+Definition same_shape (s t : state) : Prop :=
+  forall m, nkind (nd t m) = nkind (nd s m) /\ decl (nd t m) = decl (nd s m).
+
+Lemma vsrc_shape_ fuel s t n : same_shape s t -> vsrc_ fuel t n = vsrc_ fuel s n.
+Proof.
+  intros H. revert n. induction fuel as [|fuel IH]; intros n; [reflexivity|]. cbn [vsrc_].
+  destruct (H n) as [-> ->]. destruct (nkind (nd s n)); try reflexivity.
+  destruct (decl (nd s n)); [reflexivity|apply IH].
+Qed.
+
+Lemma vsrc_shape s t n : same_shape s t -> vsrc t n = vsrc s n.
+Proof. apply vsrc_shape_. Qed.
+
+Lemma valueOf_shape s t n : same_shape s t ->
+  (forall m, vsrc s n = Some m -> value (nd t m) = value (nd s m)) -> valueOf t n = valueOf s n.
+Proof.
+  intros H Hv. rewrite !valueOf_vsrc, (vsrc_shape s t n H). destruct (vsrc s n) as [m|]; [|reflexivity].
+  apply Hv. reflexivity.
+Qed.
+
+(* updates that leave kind, inputs and value alone do not change Value() *)
+Lemma valueOf_upd_irrel s n f a :
+  (forall x, nkind (f x) = nkind x) -> (forall x, decl (f x) = decl x) -> (forall x, value (f x) = value x) ->
+  valueOf (upd s n f) a = valueOf s a.
+Proof.
+  intros H1 H2 H3. apply valueOf_shape.
+  - intros m. split; [apply (nd_upd_proj nkind), H1|apply (nd_upd_proj decl), H2].
+  - intros m _. apply (nd_upd_proj value), H3.
+Qed.
+
+Lemma valueOf_emit e s a : valueOf (emit e s) a = valueOf s a.
+Proof. apply valueOf_shape; [intros m; split; reflexivity|reflexivity]. Qed.
+
+(** ** the pieces *)
+Lemma invoke_quiet p s n w : actions_of p n w = [] -> invoke p s n w = Ok (s, None).
+Proof. intros H. unfold invoke. rewrite H. reflexivity. Qed.
+
+Lemma shouldRecomputeChild_wantPush s c :
+  shouldRecomputeChild s c = negb (inHeap s c) && wantPush s c.
+Proof. unfold shouldRecomputeChild, wantPush. destruct (inHeap s c); reflexivity. Qed.
+
+Lemma wantPush_heap s w c : wantPush (s <| heap := w |>) c = wantPush s c.
+Proof. reflexivity. Qed.
+
+Lemma set_heap_heap (s : state) w w' : s <| heap := w |> <| heap := w' |> = s <| heap := w' |>.
+Proof. destruct s; reflexivity. Qed.
+Lemma set_heap_same (s : state) : s <| heap := heap s |> = s.
+Proof. destruct s; reflexivity. Qed.
+
+(* the locked children scan *)
+Lemma push_char cs : forall t,
+  rfold (fun s c => if shouldRecomputeChild s c then heapAdd s c else Ok s) cs t =
+  (w <-! addAll (fun c => height (nd t c)) (filter (fun c => wantPush t c = true) cs) (heap t); Ok (t <| heap := w |>)).
+Proof.
+  induction cs as [|c cs IH]; intros t.
+  - cbn. rewrite set_heap_same. reflexivity.
+  - cbn [rfold]. rewrite shouldRecomputeChild_wantPush. rewrite filter_cons.
+    destruct (wantPush t c) eqn:Ew.
+    + rewrite decide_True by reflexivity. rewrite addAll_cons. unfold Heap.addIfNotPresent, inHeap.
+      destruct (Heap.mem (heap t) c) eqn:Em; cbn [negb andb rbind].
+      * apply IH.
+      * unfold heapAdd. destruct (Heap.add (heap t) c (height (nd t c))) as [w| |]; cbn [rbind]; try reflexivity.
+        rewrite IH. cbn. destruct (addAll _ _ w); cbn; reflexivity.
+    + rewrite decide_False by discriminate. rewrite andb_false_r. cbn [rbind]. apply IH.
+Qed.
+
+Lemma observers_fold os : forall t,
+  foldl (fun s o => insert_handler o s) t os = t <| handlers := foldl (fun l o => insert_sorted o l) (handlers t) os |>.
+Proof.
+  induction os as [|o os IH]; intros t; cbn [foldl].
+  - destruct t; reflexivity.
+  - rewrite IH. unfold insert_handler. destruct t; reflexivity.
+Qed.
+
+Lemma alter3 (mp : gmap nid node) n f g h k :
+  (forall x, h (g (f x)) = k x) -> alter h n (alter g n (alter f n mp)) = alter k n mp.
+Proof. intros H. rewrite <- !alter_compose. apply alter_ext. intros x _. apply H. Qed.
+
+Lemma alter2 (mp : gmap nid node) n f g k :
+  (forall x, g (f x) = k x) -> alter g n (alter f n mp) = alter k n mp.
+Proof. intros H. rewrite <- !alter_compose. apply alter_ext. intros x _. apply H. Qed.
+
+Lemma bind_addAll_eq {B} hf1 hf2 l1 l2 w0 (k1 k2 : Heap.t -> res B) :
+  (forall c, hf1 c = hf2 c) -> l1 = l2 -> (forall w, k1 w = k2 w) ->
+  (w <-! addAll hf1 l1 w0; k1 w) = (w <-! addAll hf2 l2 w0; k2 w).
+Proof.
+  intros H1 -> H3. rewrite (addAll_ext hf1 hf2) by (intros; apply H1).
+  destruct (addAll hf2 l2 w0); cbn; auto.
+Qed.
+
+Lemma wantPush_ext t t' c : nodes t = nodes t' -> stabNum t = stabNum t' -> wantPush t c = wantPush t' c.
+Proof.
+  intros Hn Hs. unfold wantPush, isStale, staleWrtParents, nd. rewrite Hn, Hs. reflexivity.
+Qed.
+
+(* projections the local section does not change *)
+Lemma localF_frame s n y :
+  nkind (localF s n y) = nkind y /\ decl (localF s n y) = decl y /\ scope (localF s n y) = scope y /\
+  height (localF s n y) = height y /\ parents (localF s n y) = parents y /\ children (localF s n y) = children y /\
+  observers (localF s n y) = observers y /\ valid (localF s n y) = valid y /\ forceNec (localF s n y) = forceNec y /\
+  inGraph (localF s n y) = inGraph y /\ pending (localF s n y) = pending y /\ setAt (localF s n y) = setAt y /\
+  hAdj (localF s n y) = hAdj y.
+Proof. unfold localF. destruct (cutv s n); [|destruct (newval s n)]; repeat split; reflexivity. Qed.
+
+Lemma nd_afterLocal s n m :
+  nd (afterLocal s n) m = if decide (m = n) then match nodes s !! n with Some x => localF s n x | None => dummy end else nd s m.
+Proof. unfold nd, afterLocal; cbn. apply nd_alter. Qed.
+
+Lemma nd_afterLocal_ne s n m : m <> n -> nd (afterLocal s n) m = nd s m.
+Proof. intros H. rewrite nd_afterLocal, decide_False by exact H. reflexivity. Qed.
+
+Lemma nd_afterLocal_eq s n : has s n -> nd (afterLocal s n) n = localF s n (nd s n).
+Proof. intros [x E]. rewrite nd_afterLocal, decide_True by reflexivity. unfold nd. rewrite E. reflexivity. Qed.
+
+Lemma afterLocal_proj {A} (g : node -> A) s n m :
+  (forall y, g (localF s n y) = g y) -> g (nd (afterLocal s n) m) = g (nd s m).
+Proof.
+  intros Hg. rewrite nd_afterLocal. destruct (decide (m = n)) as [->|]; [|reflexivity].
+  unfold nd. destruct (nodes s !! n); simpl; [apply Hg|reflexivity].
+Qed.
+
+Lemma rbind_ok_assoc {A B C} (m : res A) (f : A -> B) (k : B -> res C) :
+  (x <-! (w <-! m; Ok (f w)); k x) = (w <-! m; k (f w)).
+Proof. destruct m; reflexivity. Qed.
+
+Lemma list_filter_ext' (P Q : nid -> Prop) `{forall x, Decision (P x)} `{forall x, Decision (Q x)} (l : list nid) :
+  (forall x, P x <-> Q x) -> filter P l = filter Q l.
+Proof. intros HPQ. apply list_filter_iff. exact HPQ. Qed.
+
+Lemma rnp_finish s n s1 :
+  cutv s n = false ->
+  alter (set changedAt (fun _ => stabNum s1)) n (nodes s1) = alter (localF s n) n (nodes s) ->
+  binds s1 = binds s -> next s1 = next s -> reg s1 = reg s -> obs s1 = obs s -> heap s1 = heap s ->
+  adj s1 = adj s -> invq s1 = invq s -> stabNum s1 = stabNum s -> status s1 = status s ->
+  numNodes s1 = numNodes s -> setDuring s1 = setDuring s -> setRemoved s1 = setRemoved s ->
+  handlers s1 = handlers s -> maxHeight s1 = maxHeight s -> log s1 = localEvs s n ++ log s ->
+  (s2 <-! rfold (fun s2 c => if shouldRecomputeChild s2 c then heapAdd s2 c else Ok s2)
+            (children (nd (insert_handler n (upd s1 n (set changedAt (fun _ => stabNum s1)))) n))
+            (insert_handler n (upd s1 n (set changedAt (fun _ => stabNum s1))));
+   Ok (foldl (fun s3 o => insert_handler o s3) s2 (observers (nd s2 n)), @None err))
+  = rnp_spec s n.
+Proof.
+  intros Hcut Hnodes Hb Hnx Hr Ho Hh Ha Hi Hst Hstat Hnn Hsd Hsr Hhd Hmx Hlog.
+  set (s3 := insert_handler n (upd s1 n (set changedAt (fun _ => stabNum s1)))).
+  assert (E3 : nodes s3 = nodes (afterLocal s n)) by exact Hnodes.
+  assert (Hnd : forall m, nd s3 m = nd (afterLocal s n) m) by (intros m; unfold nd; rewrite E3; reflexivity).
+  rewrite push_char. unfold rnp_spec.
+  rewrite rbind_ok_assoc. change (heap s3) with (heap s1). rewrite Hh. apply bind_addAll_eq.
+  - intros c. rewrite Hnd. apply (afterLocal_proj height). intros y. apply localF_frame.
+  - unfold pushlist. rewrite Hcut. rewrite Hnd.
+    rewrite (afterLocal_proj children) by (intros y; apply localF_frame).
+    apply list_filter_ext'. intros c. rewrite (wantPush_ext s3 (afterLocal s n) c E3 Hst). reflexivity.
+  - intros w. rewrite observers_fold. apply (f_equal (fun x : state => Ok (x, @None err))).
+    apply state_ext; cbn; try assumption; try reflexivity.
+    unfold newHandlers, hkeys. rewrite Hcut. cbn [foldl]. rewrite Hhd. f_equal.
+      change (observers (nd s3 n) = observers (nd s n)). rewrite Hnd.
+      apply (afterLocal_proj observers). intros y. apply localF_frame.
+Qed.
+
+Lemma rnp_char fuel p s n :
+  has s n -> is_lhs (nkind (nd s n)) = false -> (forall w, actions_of p n w = []) ->
+  recomputeNodeParallel fuel p s n = rnp_spec s n.
+Proof.
+  intros Hn Hk Hq.
+  unfold recomputeNodeParallel.
+  set (s0 := upd s n (set recomputedAt (fun _ => stabNum s))).
+  assert (Hk0 : nkind (nd s0 n) = nkind (nd s n)) by (apply (nd_upd_proj nkind); reflexivity).
+  assert (Hd0 : decl (nd s0 n) = decl (nd s n)) by (apply (nd_upd_proj decl); reflexivity).
+  assert (Hp0 : pending (nd s0 n) = pending (nd s n)) by (apply (nd_upd_proj pending); reflexivity).
+  assert (Hr0 : recomputedAt (nd s0 n) = stabNum s) by (unfold s0; rewrite nd_upd_eq by exact Hn; reflexivity).
+  assert (Hv0 : forall a, valueOf s0 a = valueOf s a) by (intros a; apply valueOf_upd_irrel; reflexivity).
+  assert (Hb0 : forall b, bd s0 b = bd s b) by reflexivity.
+  destruct (nkind (nd s n)) eqn:Ek; try discriminate.
+  all: rewrite ?(invoke_quiet _ _ _ _ (Hq WCut)); cbn [rbind].
+  all: unfold stabilizeNode; rewrite ?Hk0.
+  all: rewrite ?(invoke_quiet _ _ _ _ (Hq WFn)); unfold ok; cbn [rbind].
+  all: rewrite ?Hd0, ?Hv0.
+  - (* KVar *)
+    assert (Hfin : (s2 <-! rfold (fun s2 c => if shouldRecomputeChild s2 c then heapAdd s2 c else Ok s2)
+            (children (nd (insert_handler n (upd s0 n (set changedAt (fun _ => stabNum s0)))) n))
+            (insert_handler n (upd s0 n (set changedAt (fun _ => stabNum s0))));
+            Ok (foldl (fun s3 o => insert_handler o s3) s2 (observers (nd s2 n)), @None err)) = rnp_spec s n).
+    2: { destruct (pending (nd s0 n)); [rewrite Hr0; change (stabNum s0) with (stabNum s); rewrite Z.eqb_refl|];
+         unfold ok; cbn [rbind]; exact Hfin. }
+    cbn [rbind]. apply rnp_finish; try reflexivity.
+    + unfold cutv. rewrite Ek. reflexivity.
+    + cbn. apply alter2. intros x. unfold localF, cutv, newval. rewrite Ek. reflexivity.
+    + unfold localEvs. rewrite Ek. reflexivity.
+  - (* KReturn *)
+    apply rnp_finish; try reflexivity.
+    + unfold cutv. rewrite Ek. reflexivity.
+    + cbn. apply alter2. intros x. unfold localF, cutv, newval. rewrite Ek. reflexivity.
+    + unfold localEvs. rewrite Ek. reflexivity.
+  - (* KMap *)
+    apply rnp_finish; try reflexivity.
+    + unfold cutv. rewrite Ek. reflexivity.
+    + cbn. apply alter3. intros x. unfold localF, cutv, newval. rewrite Ek. reflexivity.
+    + unfold localEvs. rewrite Ek. reflexivity.
+  - apply rnp_finish; try reflexivity.
+    + unfold cutv. rewrite Ek. reflexivity.
+    + cbn. apply alter3. intros x. unfold localF, cutv, newval. rewrite Ek. reflexivity.
+    + unfold localEvs. rewrite Ek. reflexivity.
+  - apply rnp_finish; try reflexivity.
+    + unfold cutv. rewrite Ek. reflexivity.
+    + cbn. apply alter3. intros x. unfold localF, cutv, newval. rewrite Ek.
+      rewrite (map_ext _ _ Hv0). reflexivity.
+    + unfold localEvs. rewrite Ek. rewrite (map_ext _ _ Hv0). reflexivity.
+  - (* KCutoff *)
+    set (ev := EvCutoff n _ _ _).
+    destruct (apCut c (value (nd s n)) (valueOf s (hd 0%nat (decl (nd s n))))) eqn:Ecut.
+    + assert (Hcut : cutv s n = true) by (unfold cutv; rewrite Ek; exact Ecut).
+      unfold rnp_spec, pushlist, newHandlers, hkeys. rewrite Hcut. cbn [addAll rfold rbind foldl].
+      apply (f_equal (fun x : state => Ok (x, @None err))).
+      apply state_ext; try reflexivity.
+      * cbn. apply alter_ext. intros x _. unfold localF. rewrite Hcut. reflexivity.
+      * cbn. unfold localEvs. rewrite Ek. unfold ev. rewrite Ecut. reflexivity.
+    + assert (Hcut : cutv s n = false) by (unfold cutv; rewrite Ek; exact Ecut).
+      change (nd (emit ev s0) n) with (nd s0 n). rewrite Hk0. rewrite valueOf_emit, Hd0, Hv0.
+      cbn [rbind]. apply rnp_finish; try reflexivity.
+      * exact Hcut.
+      * cbn. apply alter3. intros x. unfold localF, newval. rewrite Hcut, Ek. reflexivity.
+      * cbn. unfold localEvs. rewrite Ek. unfold ev. rewrite Ecut. reflexivity.
+  - (* KAlways *)
+    apply rnp_finish; try reflexivity.
+    + unfold cutv. rewrite Ek. reflexivity.
+    + cbn. apply alter2. intros x. unfold localF, cutv, newval. rewrite Ek. reflexivity.
+    + unfold localEvs. rewrite Ek. reflexivity.
+  - (* KBindMain *)
+    apply rnp_finish; try reflexivity.
+    + unfold cutv. rewrite Ek. reflexivity.
+    + apply alter3. intros x. unfold localF, cutv, newval. rewrite Ek. change (bd s0 b) with (bd s b).
+      destruct (b_rhs (bd s b)); rewrite ?Hv0; reflexivity.
+    + unfold localEvs. rewrite Ek. reflexivity.
+Qed.
+
+(** * D. The equivalence *)
+Lemma sim_refl s : s ≈ s.
+Proof. constructor; try reflexivity. apply heap_sim_refl. Qed.
+
+Lemma sim_sym s t : s ≈ t -> t ≈ s.
+Proof. intros []. constructor; try (symmetry; assumption). apply heap_sim_sym; assumption. Qed.
+
+Lemma sim_trans s t u : s ≈ t -> t ≈ u -> s ≈ u.
+Proof.
+  intros [] []. constructor; try (etransitivity; eassumption). eapply heap_sim_trans; eassumption.
+Qed.
+
+Lemma nd_ext t t' m : nodes t = nodes t' -> nd t m = nd t' m.
+Proof. unfold nd. intros ->. reflexivity. Qed.
+
+Lemma bd_ext t t' b : binds t = binds t' -> bd t b = bd t' b.
+Proof. unfold bd. intros ->. reflexivity. Qed.
+
+Lemma valueOf_ext t t' a : nodes t = nodes t' -> valueOf t a = valueOf t' a.
+Proof.
+  intros H. symmetry. apply valueOf_shape.
+  - intros m. rewrite (nd_ext t t' m H). split; reflexivity.
+  - intros m _. rewrite (nd_ext t t' m H). reflexivity.
+Qed.
+
+Section core_ext.
+  Context (t t' : state) (Hn : nodes t = nodes t') (Hb : binds t = binds t') (Hs : stabNum t = stabNum t').
+
+  Lemma cutv_ext n : cutv t n = cutv t' n.
+  Proof. unfold cutv. rewrite (nd_ext t t' n Hn). destruct (nkind (nd t' n)); try reflexivity. rewrite (valueOf_ext t t' _ Hn). reflexivity. Qed.
+
+  Lemma newval_ext n : newval t n = newval t' n.
+  Proof.
+    unfold newval. rewrite (nd_ext t t' n Hn). destruct (nkind (nd t' n)); try reflexivity.
+    - rewrite (valueOf_ext t t' _ Hn). reflexivity.
+    - rewrite !(valueOf_ext t t' _ Hn). reflexivity.
+    - rewrite (map_ext _ _ (fun a => valueOf_ext t t' a Hn)). reflexivity.
+    - rewrite (valueOf_ext t t' _ Hn). reflexivity.
+    - rewrite (bd_ext t t' _ Hb). destruct (b_rhs (bd t' b)); [rewrite (valueOf_ext t t' _ Hn)|]; reflexivity.
+  Qed.
+
+  Lemma localEvs_ext n : localEvs t n = localEvs t' n.
+  Proof.
+    unfold localEvs. rewrite (nd_ext t t' n Hn). destruct (nkind (nd t' n)); try reflexivity.
+    - rewrite (valueOf_ext t t' _ Hn). reflexivity.
+    - rewrite !(valueOf_ext t t' _ Hn). reflexivity.
+    - rewrite (map_ext _ _ (fun a => valueOf_ext t t' a Hn)). reflexivity.
+    - rewrite (valueOf_ext t t' _ Hn). reflexivity.
+  Qed.
+
+  Lemma localF_ext n y : localF t n y = localF t' n y.
+  Proof. unfold localF. rewrite cutv_ext, newval_ext, Hs. reflexivity. Qed.
+
+  Lemma afterLocal_nodes_ext n : nodes (afterLocal t n) = nodes (afterLocal t' n).
+  Proof. unfold afterLocal; cbn. rewrite Hn. apply alter_ext. intros y _. apply localF_ext. Qed.
+
+  Lemma pushlist_ext n : pushlist t n = pushlist t' n.
+  Proof.
+    unfold pushlist. rewrite cutv_ext. destruct (cutv t' n); [reflexivity|].
+    rewrite (nd_ext t t' n Hn). apply list_filter_iff. intros c.
+    rewrite (wantPush_ext (afterLocal t n) (afterLocal t' n) c (afterLocal_nodes_ext n) Hs). reflexivity.
+  Qed.
+
+  Lemma hkeys_ext n : hkeys t n = hkeys t' n.
+  Proof. unfold hkeys. rewrite cutv_ext, (nd_ext t t' n Hn). reflexivity. Qed.
+End core_ext.
+
+(** [insert_sorted] is a commutative set insertion *)
+Lemma insert_sorted_comm a b l : insert_sorted a (insert_sorted b l) = insert_sorted b (insert_sorted a l).
+Proof.
+  induction l as [|x l IH]; cbn [insert_sorted].
+  - destruct (Nat.ltb_spec a b), (Nat.ltb_spec b a), (Nat.eqb_spec a b), (Nat.eqb_spec b a); try lia; try reflexivity; subst; try lia.
+    cbn [insert_sorted]. reflexivity.
+  - destruct (Nat.ltb_spec b x), (Nat.ltb_spec a x), (Nat.eqb_spec b x), (Nat.eqb_spec a x); subst; try lia; cbn [insert_sorted].
+    all: repeat match goal with
+         | |- context [(?u <? ?v)%nat] => destruct (Nat.ltb_spec u v); try lia
+         | |- context [(?u =? ?v)%nat] => destruct (Nat.eqb_spec u v); try lia
+         end; subst; try lia; try reflexivity; cbn [insert_sorted];
+      repeat match goal with
+         | |- context [(?u <? ?v)%nat] => destruct (Nat.ltb_spec u v); try lia
+         | |- context [(?u =? ?v)%nat] => destruct (Nat.eqb_spec u v); try lia
+         end; subst; try lia; try reflexivity.
+    rewrite IH. reflexivity.
+Qed.
+
+Definition insAll (l : list nid) (ks : list nid) : list nid := foldl (fun l o => insert_sorted o l) l ks.
+
+Lemma insAll_insert a ks : forall l, insAll (insert_sorted a l) ks = insert_sorted a (insAll l ks).
+Proof.
+  induction ks as [|k ks IH]; intros l; [reflexivity|]. cbn [insAll foldl]. fold (insAll (insert_sorted k (insert_sorted a l)) ks).
+  rewrite insert_sorted_comm. apply IH.
+Qed.
+
+Lemma insAll_perm ks ks' : ks ≡ₚ ks' -> forall l, insAll l ks = insAll l ks'.
+Proof.
+  induction 1 as [|x ks ks' _ IH|x y ks|ks ks' ks'' _ IH1 _ IH2]; intros l.
+  - reflexivity.
+  - apply IH.
+  - cbn [insAll foldl]. rewrite insert_sorted_comm. reflexivity.
+  - rewrite IH1. apply IH2.
+Qed.
+
+Lemma insAll_app l k1 k2 : insAll l (k1 ++ k2) = insAll (insAll l k1) k2.
+Proof. apply foldl_app. Qed.
+
+(** * E. The step on ≈-related states, and two steps of one block *)
+
+Lemma rnp_spec_inv s n s1 e : rnp_spec s n = Ok (s1, e) ->
+  e = None /\ exists w, addAll (fun c => height (nd s c)) (pushlist s n) (heap s) = Ok w /\
+  s1 = afterLocal s n <| heap := w |> <| handlers := newHandlers s n |>.
+Proof.
+  unfold rnp_spec. intros H. apply rbind_ok in H as (w & Hw & [= <- <-]). split; [reflexivity|]. eauto.
+Qed.
+
+Lemma newHandlers_insAll s n : newHandlers s n = insAll (handlers s) (hkeys s n).
+Proof. reflexivity. Qed.
+
+Lemma rnp_spec_sim s s' n t e :
+  s ≈ s' -> (forall c, c ∈ pushlist s n -> 0 <= height (nd s c)) -> 0 <= Heap.cnt (heap s) ->
+  rnp_spec s n = Ok (t, e) -> exists t', rnp_spec s' n = Ok (t', e) /\ t ≈ t'.
+Proof.
+  intros Hs Hh Hc H. apply rnp_spec_inv in H as (-> & w & Hw & ->).
+  destruct Hs as [Sn Sb Snx Sr So Sh Sa Si Sst Sstat Snn Ssd Ssr Shd Smx Sl].
+  destruct (addAll_perm _ _ _ (Permutation_refl _) _ _ _ Hh Hc Sh Hw) as (w' & Hw' & Sw).
+  unfold rnp_spec. rewrite <- (pushlist_ext s s' Sn Sb Sst).
+  rewrite (addAll_ext _ (fun c => height (nd s c))) by (intros c _; rewrite (nd_ext s s' c Sn); reflexivity).
+  rewrite Hw'. cbn [rbind]. eexists. split; [reflexivity|].
+  constructor; cbn; try assumption.
+  - rewrite Sn. apply alter_ext. intros y _. apply localF_ext; assumption.
+  - unfold newHandlers. rewrite (hkeys_ext s s' Sn), Shd. reflexivity.
+  - rewrite (localEvs_ext s s' Sn). apply Permutation_app_head. exact Sl.
+Qed.
+
+(** the step leaves the shape of the graph alone *)
+Lemma rnp_spec_nd s n s1 e m : rnp_spec s n = Ok (s1, e) -> nd s1 m = nd (afterLocal s n) m.
+Proof. intros H. apply rnp_spec_inv in H as (_ & w & _ & ->). reflexivity. Qed.
+
+Lemma rnp_spec_proj {A} (g : node -> A) s n s1 e m :
+  (forall t k y, g (localF t k y) = g y) -> rnp_spec s n = Ok (s1, e) -> g (nd s1 m) = g (nd s m).
+Proof. intros Hg H. rewrite (rnp_spec_nd _ _ _ _ m H). apply afterLocal_proj. intros y. apply Hg. Qed.
+
+Lemma rnp_spec_has s n s1 e m : rnp_spec s n = Ok (s1, e) -> (has s1 m <-> has s m).
+Proof.
+  intros H. apply rnp_spec_inv in H as (_ & w & _ & ->). unfold has; cbn.
+  destruct (decide (m = n)) as [->|Hne].
+  - rewrite lookup_alter, fmap_is_Some. reflexivity.
+  - rewrite lookup_alter_ne by congruence. reflexivity.
+Qed.
+
+Lemma rnp_spec_binds s n s1 e : rnp_spec s n = Ok (s1, e) -> binds s1 = binds s.
+Proof. intros H. apply rnp_spec_inv in H as (_ & w & _ & ->). reflexivity. Qed.
+Lemma rnp_spec_stabNum s n s1 e : rnp_spec s n = Ok (s1, e) -> stabNum s1 = stabNum s.
+Proof. intros H. apply rnp_spec_inv in H as (_ & w & _ & ->). reflexivity. Qed.
+
+Lemma same_shape_afterLocal s n : same_shape s (afterLocal s n).
+Proof.
+  intros m. split; [apply (afterLocal_proj nkind)|apply (afterLocal_proj decl)]; intros y; apply localF_frame.
+Qed.
+
+(** what a node of the block reads is not written by another node of the block *)
+Lemma valueOf_afterLocal s n h a :
+  height (nd s n) = h -> (forall x, vsrc s a = Some x -> height (nd s x) < h) ->
+  valueOf (afterLocal s n) a = valueOf s a.
+Proof.
+  intros Hh Hb. apply valueOf_shape; [apply same_shape_afterLocal|].
+  intros x Hx. rewrite nd_afterLocal_ne; [reflexivity|]. intros ->. specialize (Hb _ Hx). lia.
+Qed.
+
+Section view.
+  Context (s : state) (n m : nid) (h : Z).
+  Context (Hne : m <> n) (Hhn : height (nd s n) = h) (Hrm : reads_below s m h).
+  Let t := afterLocal s n.
+
+  Lemma view_nd : nd t m = nd s m.
+  Proof. apply nd_afterLocal_ne, Hne. Qed.
+
+  Lemma view_value a : a ∈ reads s m -> valueOf t a = valueOf s a.
+  Proof. intros Ha. apply (valueOf_afterLocal s n h a Hhn). intros x Hx. eapply Hrm; eauto. Qed.
+
+  Lemma view_cutv : cutv t m = cutv s m.
+  Proof.
+    unfold cutv. rewrite view_nd. destruct (nkind (nd s m)) eqn:Ek; try reflexivity.
+    rewrite view_value; [reflexivity|]. unfold reads. rewrite Ek. left.
+  Qed.
+
+  Lemma view_newval : newval t m = newval s m.
+  Proof.
+    unfold newval. rewrite view_nd. destruct (nkind (nd s m)) eqn:Ek; try reflexivity.
+    - rewrite view_value; [reflexivity|]. unfold reads. rewrite Ek. left.
+    - rewrite !view_value; [reflexivity| |]; unfold reads; rewrite Ek; [right; left|left].
+    - f_equal. f_equal. apply map_ext_in. intros a Ha. apply view_value. unfold reads. rewrite Ek.
+      apply elem_of_list_In. exact Ha.
+    - rewrite view_value; [reflexivity|]. unfold reads. rewrite Ek. left.
+    - change (bd t b) with (bd s b). destruct (b_rhs (bd s b)) as [r|] eqn:Er; [|reflexivity].
+      rewrite view_value; [reflexivity|]. unfold reads. rewrite Ek, Er. left.
+  Qed.
+
+  Lemma view_localEvs : localEvs t m = localEvs s m.
+  Proof.
+    unfold localEvs. rewrite view_nd. destruct (nkind (nd s m)) eqn:Ek; try reflexivity.
+    - rewrite view_value; [reflexivity|]. unfold reads. rewrite Ek. left.
+    - rewrite !view_value; [reflexivity| |]; unfold reads; rewrite Ek; [right; left|left].
+    - assert (map (valueOf t) (decl (nd s m)) = map (valueOf s) (decl (nd s m))) as ->; [|reflexivity].
+      apply map_ext_in. intros a Ha. apply view_value. unfold reads. rewrite Ek.
+      apply elem_of_list_In. exact Ha.
+    - rewrite view_value; [reflexivity|]. unfold reads. rewrite Ek. left.
+  Qed.
+
+  Lemma view_localF y : localF t m y = localF s m y.
+  Proof. unfold localF. rewrite view_cutv, view_newval. reflexivity. Qed.
+
+  Lemma view_hkeys : hkeys t m = hkeys s m.
+  Proof. unfold hkeys. rewrite view_cutv, view_nd. reflexivity. Qed.
+End view.
+
+(** a child's staleness test does not depend on the stamps of its OTHER inputs once one input
+    carries the current pass's stamp *)
+Lemma stale_char t x m :
+  (forall q, changedAt (nd t q) <= stabNum t) -> m ∈ parents x -> changedAt (nd t m) = stabNum t ->
+  staleWrtParents t x = (recomputedAt x <? stabNum t).
+Proof.
+  intros Hst Hm Hcm. unfold staleWrtParents. destruct (Z.ltb_spec (recomputedAt x) (stabNum t)) as [Hlt|Hge].
+  - apply existsb_exists. exists m. split; [apply elem_of_list_In, Hm|]. rewrite Hcm. lia.
+  - apply Bool.not_true_is_false. intros [q [_ Hq]]%existsb_exists. specialize (Hst q). lia.
+Qed.
+
+Lemma changedAt_localF s n y : changedAt y <= stabNum s -> changedAt (localF s n y) <= stabNum s.
+Proof. unfold localF. destruct (cutv s n); [|destruct (newval s n)]; cbn; lia. Qed.
+
+Lemma changedAt_localF_nocut s n y : cutv s n = false -> changedAt (localF s n y) = stabNum s.
+Proof. unfold localF. intros ->. destruct (newval s n); reflexivity. Qed.
+
+Lemma stamps_afterLocal s n : (forall q, changedAt (nd s q) <= stabNum s) ->
+  forall q, changedAt (nd (afterLocal s n) q) <= stabNum s.
+Proof.
+  intros H q. rewrite nd_afterLocal. destruct (decide (q = n)) as [->|]; [|apply H].
+  specialize (H n). unfold nd in H. destruct (nodes s !! n); cbn in *; [apply changedAt_localF, H|exact H].
+Qed.
+
+Lemma filter_ext_in (P Q : nid -> Prop) `{forall x, Decision (P x)} `{forall x, Decision (Q x)} (l : list nid) :
+  (forall x, x ∈ l -> (P x <-> Q x)) -> filter P l = filter Q l.
+Proof.
+  induction l as [|a l IH]; intros HPQ; [reflexivity|]. rewrite !filter_cons.
+  rewrite IH by (intros; apply HPQ; right; assumption).
+  destruct (decide (P a)) as [Hp|Hp], (decide (Q a)) as [Hq|Hq]; try reflexivity;
+    exfalso; apply (HPQ a ltac:(left)) in Hp || apply (HPQ a ltac:(left)) in Hq; contradiction.
+Qed.
+
+(** the candidates [m] queues are the same whether or not [n] (same height) went first *)
+Lemma pushlist_stable s n m h :
+  graph_ok s -> has s m -> m <> n -> height (nd s n) = h -> height (nd s m) = h -> reads_below s m h ->
+  pushlist (afterLocal s n) m = pushlist s m.
+Proof.
+  intros G Hm Hne Hhn Hhm Hrm. unfold pushlist.
+  rewrite (view_cutv s n m h Hne Hhn Hrm). destruct (cutv s m) eqn:Hcut; [reflexivity|].
+  rewrite (view_nd s n m Hne).
+  apply filter_ext_in. intros c Hc.
+  pose proof (go_edges _ G _ _ Hc) as Hpar. pose proof (go_heights _ G _ _ Hpar) as Hlt.
+  assert (Hcm : c <> m) by (intros ->; lia). assert (Hcn : c <> n) by (intros ->; lia).
+  set (t := afterLocal s n). set (A12 := afterLocal t m). set (A2 := afterLocal s m).
+  assert (E12 : nd A12 c = nd s c) by (unfold A12, t; rewrite !nd_afterLocal_ne by assumption; reflexivity).
+  assert (E2 : nd A2 c = nd s c) by (unfold A2; rewrite nd_afterLocal_ne by assumption; reflexivity).
+  assert (Hmt : has t m) by (unfold has, t, afterLocal; cbn; rewrite lookup_alter_ne by congruence; exact Hm).
+  assert (S12 : staleWrtParents A12 (nd s c) = (recomputedAt (nd s c) <? stabNum s)).
+  { pose proof (stale_char A12 (nd s c) m) as X; change (stabNum A12) with (stabNum s) in X; apply X; clear X.
+    - apply (stamps_afterLocal t m). apply (stamps_afterLocal s n). apply (go_stamps _ G).
+    - exact Hpar.
+    - unfold A12. rewrite nd_afterLocal_eq by exact Hmt. apply (changedAt_localF_nocut t m).
+      unfold t. rewrite (view_cutv s n m h Hne Hhn Hrm). exact Hcut. }
+  assert (S2 : staleWrtParents A2 (nd s c) = (recomputedAt (nd s c) <? stabNum s)).
+  { pose proof (stale_char A2 (nd s c) m) as X; change (stabNum A2) with (stabNum s) in X; apply X; clear X.
+    - apply (stamps_afterLocal s m). apply (go_stamps _ G).
+    - exact Hpar.
+    - unfold A2. rewrite nd_afterLocal_eq by exact Hm. apply changedAt_localF_nocut, Hcut. }
+  assert (wantPush A12 c = wantPush A2 c) as ->; [|reflexivity].
+  unfold wantPush, isStale. rewrite E12, E2, S12, S2. reflexivity.
+Qed.
+
+Lemma pushlist_height s n c h : graph_ok s -> height (nd s n) = h -> 0 <= h ->
+  c ∈ pushlist s n -> 0 <= height (nd s c).
+Proof.
+  intros G Hh H0 Hc. unfold pushlist in Hc. destruct (cutv s n); [inversion Hc|].
+  apply elem_of_list_filter in Hc as [_ Hc].
+  pose proof (go_heights _ G _ _ (go_edges _ G _ _ Hc)). lia.
+Qed.
+
+(** ** two nodes of one block commute, up to ≈ *)
+Lemma rnp_spec_comm s n m h s1 s12 e1 e2 :
+  graph_ok s -> has s n -> has s m -> m <> n -> height (nd s n) = h -> height (nd s m) = h -> 0 <= h ->
+  reads_below s n h -> reads_below s m h ->
+  rnp_spec s n = Ok (s1, e1) -> rnp_spec s1 m = Ok (s12, e2) ->
+  exists s2 s21, rnp_spec s m = Ok (s2, e2) /\ rnp_spec s2 n = Ok (s21, e1) /\ s12 ≈ s21.
+Proof.
+  intros G Hn Hm Hne Hhn Hhm H0 Hrn Hrm H1 H12.
+  assert (Hne' : n <> m) by congruence.
+  apply rnp_spec_inv in H1 as (-> & w1 & Hw1 & ->).
+  apply rnp_spec_inv in H12 as (-> & w12 & Hw12 & ->).
+  set (t1 := afterLocal s n) in *. set (t2 := afterLocal s m).
+  set (s1 := t1 <| heap := w1 |> <| handlers := newHandlers s n |>) in *.
+  (* what m sees after n *)
+  assert (Pm : pushlist s1 m = pushlist s m).
+  { rewrite (pushlist_ext s1 t1 eq_refl eq_refl eq_refl m). apply (pushlist_stable s n m h); assumption. }
+  assert (Hf1 : forall c, height (nd s1 c) = height (nd s c)).
+  { intros c. change (nd s1 c) with (nd t1 c). apply (afterLocal_proj height). intros y. apply localF_frame. }
+  rewrite Pm in Hw12. rewrite (addAll_ext _ (fun c => height (nd s c))) in Hw12 by (intros; apply Hf1).
+  change (heap s1) with w1 in Hw12.
+  (* the two queues *)
+  set (hf := fun c => height (nd s c)) in *.
+  assert (Hall : addAll hf (pushlist s n ++ pushlist s m) (heap s) = Ok w12)
+    by (rewrite addAll_app, Hw1; exact Hw12).
+  assert (Hhs : forall c, c ∈ pushlist s n ++ pushlist s m -> 0 <= hf c).
+  { intros c [Hc|Hc]%elem_of_app; [apply (pushlist_height s n c h)|apply (pushlist_height s m c h)]; assumption. }
+  destruct (addAll_perm hf _ _ (Permutation_app_comm _ _) _ _ _ Hhs (go_cnt _ G) (heap_sim_refl _) Hall)
+    as (w21 & Hw21 & Sw).
+  rewrite addAll_app in Hw21. apply rbind_ok in Hw21 as (w2 & Hw2 & Hw21).
+  set (s2 := t2 <| heap := w2 |> <| handlers := newHandlers s m |>).
+  assert (Pn : pushlist s2 n = pushlist s n).
+  { rewrite (pushlist_ext s2 t2 eq_refl eq_refl eq_refl n). apply (pushlist_stable s m n h); assumption. }
+  assert (Hf2 : forall c, height (nd s2 c) = height (nd s c)).
+  { intros c. change (nd s2 c) with (nd t2 c). apply (afterLocal_proj height). intros y. apply localF_frame. }
+  exists s2, (afterLocal s2 n <| heap := w21 |> <| handlers := newHandlers s2 n |>).
+  split; [|split].
+  - unfold rnp_spec. fold hf. rewrite Hw2. reflexivity.
+  - unfold rnp_spec. rewrite Pn. rewrite (addAll_ext _ hf) by (intros; apply Hf2).
+    change (heap s2) with w2. rewrite Hw21. reflexivity.
+  - (* the two results *)
+    assert (LFm : forall y, localF s1 m y = localF s m y).
+    { intros y. rewrite (localF_ext s1 t1 eq_refl eq_refl eq_refl m y). apply (view_localF s n m h); assumption. }
+    assert (LFn : forall y, localF s2 n y = localF s n y).
+    { intros y. rewrite (localF_ext s2 t2 eq_refl eq_refl eq_refl n y). apply (view_localF s m n h); assumption. }
+    assert (LEm : localEvs s1 m = localEvs s m).
+    { rewrite (localEvs_ext s1 t1 eq_refl m). apply (view_localEvs s n m h); assumption. }
+    assert (LEn : localEvs s2 n = localEvs s n).
+    { rewrite (localEvs_ext s2 t2 eq_refl n). apply (view_localEvs s m n h); assumption. }
+    assert (HKm : hkeys s1 m = hkeys s m).
+    { rewrite (hkeys_ext s1 t1 eq_refl m). apply (view_hkeys s n m h); assumption. }
+    assert (HKn : hkeys s2 n = hkeys s n).
+    { rewrite (hkeys_ext s2 t2 eq_refl n). apply (view_hkeys s m n h); assumption. }
+    constructor; cbn; try reflexivity.
+    + rewrite (alter_ext (localF s1 m) (localF s m)) by (intros; apply LFm).
+      rewrite (alter_ext (localF s2 n) (localF s n)) by (intros; apply LFn).
+      apply alter_commute. exact Hne.
+    + exact Sw.
+    + rewrite !newHandlers_insAll. change (handlers s1) with (newHandlers s n). change (handlers s2) with (newHandlers s m).
+      rewrite !newHandlers_insAll, HKm, HKn, <- !insAll_app. apply insAll_perm, Permutation_app_comm.
+    + rewrite LEm, LEn. apply Permutation_app_swap_app.
+Qed.
+
+(** * F. A block under any order *)
+Definition ok_state (s : state) (B : list nid) (h : Z) : Prop := block_ok s B h /\ graph_ok s.
+
+Lemma reads_shape s t n : (forall m, nd t m = nd s m \/ (nkind (nd t m) = nkind (nd s m) /\ decl (nd t m) = decl (nd s m))) ->
+  binds t = binds s -> reads t n = reads s n.
+Proof.
+  intros Hnd Hb. unfold reads.
+  assert (nkind (nd t n) = nkind (nd s n) /\ decl (nd t n) = decl (nd s n)) as [-> ->].
+  { destruct (Hnd n) as [->|]; auto. }
+  destruct (nkind (nd s n)); try reflexivity. rewrite (bd_ext t s _ Hb). reflexivity.
+Qed.
+
+Lemma rnp_spec_ok_state s B h n s1 e :
+  ok_state s B h -> n ∈ B -> rnp_spec s n = Ok (s1, e) -> ok_state s1 B h.
+Proof.
+  intros [Bo G] Hn H.
+  pose proof (bo_height _ _ _ Bo n Hn) as Hhn. pose proof (bo_h _ _ _ Bo) as H0.
+  assert (Hshape : same_shape s s1).
+  { intros m. rewrite (rnp_spec_nd s n s1 e m H). apply same_shape_afterLocal. }
+  assert (Hheight : forall m, height (nd s1 m) = height (nd s m)).
+  { intros m. apply (rnp_spec_proj height s n s1 e m); [|exact H]. intros; apply localF_frame. }
+  split.
+  - destruct Bo as [B1 B2 B3 B4 B5 B6]. constructor; auto.
+    + intros x Hx. apply (rnp_spec_has s n s1 e x H). apply B3, Hx.
+    + intros x Hx. rewrite Hheight. auto.
+    + intros x Hx. destruct (Hshape x) as [-> _]. auto.
+    + intros x Hx a m Ha Hv. rewrite Hheight.
+      rewrite (reads_shape s s1 x) in Ha.
+      * rewrite (vsrc_shape s s1 a Hshape) in Hv. eapply B6; eauto.
+      * intros m'. right. apply Hshape.
+      * apply (rnp_spec_binds _ _ _ _ H).
+  - destruct G as [G1 G2 G3 G4]. constructor.
+    + apply rnp_spec_inv in H as (_ & w & Hw & ->). cbn.
+      eapply addAll_cnt; [|exact G1|exact Hw]. intros c Hc. cbn.
+      apply (pushlist_height s n c h); try assumption. constructor; assumption.
+    + intros x c. rewrite (rnp_spec_proj children s n s1 e x) by (first [exact H|intros; apply localF_frame]).
+      rewrite (rnp_spec_proj parents s n s1 e c) by (first [exact H|intros; apply localF_frame]). apply G2.
+    + intros c q. rewrite (rnp_spec_proj parents s n s1 e c) by (first [exact H|intros; apply localF_frame]).
+      rewrite !Hheight. apply G3.
+    + intros x. rewrite (rnp_spec_nd s n s1 e x H), (rnp_spec_stabNum _ _ _ _ H). apply stamps_afterLocal, G4.
+Qed.
+
+Lemma ok_state_sim s s' B h : s ≈ s' -> ok_state s B h -> ok_state s' B h.
+Proof.
+  intros Hs [Bo G]. destruct Hs as [Sn Sb _ _ _ Sh _ _ Sst _ _ _ _ _ _ _].
+  assert (Hnd : forall m, nd s' m = nd s m) by (intros m; symmetry; apply nd_ext, Sn).
+  assert (Hshape : same_shape s s') by (intros m; rewrite Hnd; split; reflexivity).
+  split.
+  - destruct Bo as [B1 B2 B3 B4 B5 B6]. constructor; auto.
+    + intros x Hx. rewrite <- Sn. auto.
+    + intros x Hx. rewrite Hnd. auto.
+    + intros x Hx. rewrite Hnd. auto.
+    + intros x Hx a m Ha Hv. rewrite Hnd. rewrite (reads_shape s s' x) in Ha; [|intros; left; apply Hnd|congruence].
+      rewrite (vsrc_shape s s' a Hshape) in Hv. eapply B6; eauto.
+  - destruct G as [G1 G2 G3 G4]. constructor.
+    + rewrite <- (hs_cnt _ _ Sh). exact G1.
+    + intros x c. rewrite !Hnd. apply G2.
+    + intros c q. rewrite !Hnd. apply G3.
+    + intros x. rewrite Hnd, <- Sst. apply G4.
+Qed.
+
+(** the always-list bookkeeping *)
+Definition alw (s : state) (n : nid) (al : list nid) : list nid :=
+  if isAlways (nkind (nd s n)) then al ++ [n] else al.
+
+Lemma alw_perm s n al al' : al ≡ₚ al' -> alw s n al ≡ₚ alw s n al'.
+Proof. intros H. unfold alw. destruct (isAlways _); [rewrite H|]; auto. Qed.
+
+Lemma block_step_char fuel p s B h e al n :
+  block_ok s B h -> quiet p B -> n ∈ B ->
+  block_step fuel p (s, e, al) n = ('(s1, e') <-! rnp_spec s n; Ok (s1, e, alw s n al)).
+Proof.
+  intros Bo Hq Hn. unfold block_step.
+  rewrite (bo_height _ _ _ Bo n Hn). destruct (Z.eqb_spec h unset) as [E|_].
+  { pose proof (bo_h _ _ _ Bo). unfold unset in E. lia. }
+  rewrite (rnp_char fuel p s n); [|apply (bo_has _ _ _ Bo n Hn)|apply (bo_kind _ _ _ Bo n Hn)|intros w; apply Hq, Hn].
+  destruct (rnp_spec s n) as [[s1 e']| |] eqn:E; cbn [rbind]; try reflexivity.
+  pose proof (rnp_spec_inv _ _ _ _ E) as [-> _].
+  unfold alw. rewrite (rnp_spec_proj nkind s n s1 None n) by (first [exact E|intros; apply localF_frame]).
+  destruct e; reflexivity.
+Qed.
+
+Lemma sim_blk_refl r : sim_blk r r.
+Proof. split; [apply sim_refl|split; reflexivity]. Qed.
+Lemma sim_blk_trans r1 r2 r3 : sim_blk r1 r2 -> sim_blk r2 r3 -> sim_blk r1 r3.
+Proof.
+  intros (A1 & A2 & A3) (B1 & B2 & B3). split; [eapply sim_trans; eassumption|].
+  split; [congruence|etransitivity; eassumption].
+Qed.
+
+Section block.
+  Context (fuel : nat) (p : plan) (B : list nid) (h : Z) (Hq : quiet p B).
+  Notation step := (block_step fuel p).
+
+  Lemma step_total s e al n : ok_state s B h -> n ∈ B ->
+    exists s1, step (s, e, al) n = Ok (s1, e, alw s n al) /\ rnp_spec s n = Ok (s1, None) /\ ok_state s1 B h.
+  Proof.
+    intros [Bo G] Hn. rewrite (block_step_char fuel p s B h e al n Bo Hq Hn).
+    destruct (addAll_total (fun c => height (nd s c)) (pushlist s n) (heap s)) as [w Hw].
+    { intros c Hc. apply (pushlist_height s n c h G (bo_height _ _ _ Bo n Hn) (bo_h _ _ _ Bo) Hc). }
+    assert (E : rnp_spec s n = Ok (afterLocal s n <| heap := w |> <| handlers := newHandlers s n |>, None))
+      by (unfold rnp_spec; rewrite Hw; reflexivity).
+    eexists. rewrite E. split; [reflexivity|]. split; [reflexivity|].
+    eapply rnp_spec_ok_state; [split; eassumption|exact Hn|exact E].
+  Qed.
+
+  Lemma step_cong s s' e al al' n : ok_state s B h -> n ∈ B -> s ≈ s' -> al ≡ₚ al' ->
+    exists s1 s1', step (s, e, al) n = Ok (s1, e, alw s n al) /\ step (s', e, al') n = Ok (s1', e, alw s n al') /\
+                   s1 ≈ s1' /\ ok_state s1 B h.
+  Proof.
+    intros Ok Hn Hs Hal. destruct (step_total s e al n Ok Hn) as (s1 & E1 & R1 & Ok1).
+    pose proof (ok_state_sim _ _ _ _ Hs Ok) as Ok'.
+    destruct (step_total s' e al' n Ok' Hn) as (s1' & E1' & R1' & _).
+    destruct Ok as [Bo G].
+    destruct (rnp_spec_sim s s' n s1 None Hs) as (t' & Rt & St); [| |exact R1|].
+    { intros c Hc. apply (pushlist_height s n c h G (bo_height _ _ _ Bo n Hn) (bo_h _ _ _ Bo) Hc). }
+    { apply (go_cnt _ G). }
+    rewrite R1' in Rt. injection Rt as <-.
+    exists s1, s1'. split; [exact E1|]. split; [|split; assumption].
+    rewrite E1'. unfold alw. rewrite (nd_ext s s' n (sim_nodes _ _ Hs)). reflexivity.
+  Qed.
+
+  Lemma run_total l : forall s e al, ok_state s B h -> (forall x, x ∈ l -> x ∈ B) ->
+    exists s1 al1, rfold step l (s, e, al) = Ok (s1, e, al1) /\ ok_state s1 B h.
+  Proof.
+    induction l as [|n l IH]; intros s e al Ok Hl.
+    - exists s, al. split; [reflexivity|exact Ok].
+    - destruct (step_total s e al n Ok (Hl n ltac:(left))) as (s1 & E1 & _ & Ok1).
+      cbn [rfold]. rewrite E1. cbn [rbind]. apply IH; [exact Ok1|]. intros; apply Hl; right; assumption.
+  Qed.
+
+  Lemma run_cong l : forall s s' e al al' r, ok_state s B h -> (forall x, x ∈ l -> x ∈ B) -> s ≈ s' -> al ≡ₚ al' ->
+    rfold step l (s, e, al) = Ok r -> exists r', rfold step l (s', e, al') = Ok r' /\ sim_blk r r'.
+  Proof.
+    induction l as [|n l IH]; intros s s' e al al' r Ok Hl Hs Hal H.
+    - injection H as <-. eexists. split; [reflexivity|]. split; [exact Hs|]. split; [reflexivity|exact Hal].
+    - destruct (step_cong s s' e al al' n Ok (Hl n ltac:(left)) Hs Hal) as (s1 & s1' & E1 & E1' & S1 & Ok1).
+      cbn [rfold] in *. rewrite E1 in H. rewrite E1'. cbn [rbind] in *.
+      eapply IH; [exact Ok1| |exact S1| |exact H].
+      + intros; apply Hl; right; assumption.
+      + apply alw_perm, Hal.
+  Qed.
+
+  Lemma alw_kind_stable s n s1 e m al : rnp_spec s n = Ok (s1, e) -> alw s1 m al = alw s m al.
+  Proof.
+    intros H. unfold alw. rewrite (rnp_spec_proj nkind s n s1 e m) by (first [exact H|intros; apply localF_frame]).
+    reflexivity.
+  Qed.
+
+  Lemma alw_swap s x y al : alw s x (alw s y al) ≡ₚ alw s y (alw s x al).
+  Proof.
+    unfold alw. destruct (isAlways (nkind (nd s x))), (isAlways (nkind (nd s y))); try reflexivity.
+    rewrite <- !app_assoc. apply Permutation_app_head. apply perm_swap.
+  Qed.
+
+  (** the main induction: any two orders of (a part of) the block *)
+  Lemma run_perm_same l l' : l ≡ₚ l' -> forall s e al r,
+    ok_state s B h -> (forall x, x ∈ l -> x ∈ B) -> NoDup l ->
+    rfold step l (s, e, al) = Ok r -> exists r', rfold step l' (s, e, al) = Ok r' /\ sim_blk r r'.
+  Proof.
+    induction 1 as [|x l l' Hp IH|x y l|l l' l'' Hp1 IH1 Hp2 IH2]; intros s e al r Ok Hl Hnd H.
+    - exists r. split; [exact H|apply sim_blk_refl].
+    - destruct (step_total s e al x Ok (Hl x ltac:(left))) as (s1 & E1 & _ & Ok1).
+      cbn [rfold] in *. rewrite E1 in *. cbn [rbind] in *.
+      apply NoDup_cons_1_2 in Hnd.
+      eapply IH; [exact Ok1| |exact Hnd|exact H]. intros; apply Hl; right; assumption.
+    - assert (Hy : y ∈ B) by (apply Hl; left). assert (Hx : x ∈ B) by (apply Hl; right; left).
+      assert (Hxy : x <> y).
+      { apply NoDup_cons_1_1 in Hnd. intros ->. apply Hnd. left. }
+      destruct (step_total s e al y Ok Hy) as (s1 & E1 & R1 & Ok1).
+      destruct (step_total s1 e (alw s y al) x Ok1 Hx) as (s12 & E12 & R12 & Ok12).
+      cbn [rfold] in H. rewrite E1 in H. cbn [rbind] in H. rewrite E12 in H. cbn [rbind] in H.
+      destruct Ok as [Bo G].
+      destruct (rnp_spec_comm s y x h s1 s12 None None G (bo_has _ _ _ Bo y Hy) (bo_has _ _ _ Bo x Hx) Hxy
+                  (bo_height _ _ _ Bo y Hy) (bo_height _ _ _ Bo x Hx) (bo_h _ _ _ Bo)
+                  (bo_reads _ _ _ Bo y Hy) (bo_reads _ _ _ Bo x Hx) R1 R12) as (s2 & s21 & R2 & R21 & S).
+      destruct (step_total s e al x (conj Bo G) Hx) as (s2' & E2 & R2' & Ok2).
+      rewrite R2 in R2'. injection R2' as <-.
+      destruct (step_total s2 e (alw s x al) y Ok2 Hy) as (s21' & E21 & R21' & Ok21).
+      rewrite R21 in R21'. injection R21' as <-.
+      cbn [rfold]. rewrite E2. cbn [rbind]. rewrite E21. cbn [rbind].
+      eapply (run_cong l s12 s21); [exact Ok12| |exact S| |exact H].
+      + intros; apply Hl; right; right; assumption.
+      + rewrite (alw_kind_stable _ _ _ _ x _ R1), (alw_kind_stable _ _ _ _ y _ R2). apply alw_swap.
+    - destruct (IH1 s e al r Ok Hl Hnd H) as (r' & H' & S1).
+      destruct (IH2 s e al r' Ok) as (r'' & H'' & S2); [| |exact H'|].
+      + intros x Hx. apply Hl. rewrite Hp1. exact Hx.
+      + rewrite <- Hp1. exact Hnd.
+      + exists r''. split; [exact H''|]. eapply sim_blk_trans; eassumption.
+  Qed.
+End block.
+
+(** any order of the block from ≈-related states and accumulators *)
+Lemma run_perm fuel p B h (Hq : quiet p B) l l' s s' e al al' r :
+  l ≡ₚ l' -> ok_state s B h -> (forall x, x ∈ l -> x ∈ B) -> NoDup l -> s ≈ s' -> al ≡ₚ al' ->
+  rfold (block_step fuel p) l (s, e, al) = Ok r ->
+  exists r', rfold (block_step fuel p) l' (s', e, al') = Ok r' /\ sim_blk r r'.
+Proof.
+  intros Hp Ok Hl Hnd Hs Hal H.
+  destruct (run_perm_same fuel p B h Hq l l' Hp s e al r Ok Hl Hnd H) as (r1 & H1 & S1).
+  destruct (run_cong fuel p B h Hq l' s s' e al al' r1 Ok) as (r2 & H2 & S2); auto.
+  - intros x Hx. apply Hl. rewrite Hp. exact Hx.
+  - exists r2. split; [exact H2|]. eapply sim_blk_trans; eassumption.
+Qed.
+
+(** the fuel handed to recomputeNodeParallel only matters to bind lhs-change nodes *)
+Lemma run_block_fuel fuel fuel' p B h (Hq : quiet p B) l : forall s e al,
+  ok_state s B h -> (forall x, x ∈ l -> x ∈ B) ->
+  rfold (block_step fuel p) l (s, e, al) = rfold (block_step fuel' p) l (s, e, al).
+Proof.
+  induction l as [|n l IH]; intros s e al Ok Hl; [reflexivity|].
+  destruct (step_total fuel p B h Hq s e al n Ok (Hl n ltac:(left))) as (s1 & E1 & R1 & Ok1).
+  destruct (step_total fuel' p B h Hq s e al n Ok (Hl n ltac:(left))) as (s1' & E1' & R1' & _).
+  rewrite R1 in R1'. injection R1' as <-.
+  cbn [rfold]. rewrite E1, E1'. cbn [rbind]. apply IH; [exact Ok1|]. intros; apply Hl; right; assumption.
+Qed.
+
+(** ** C04, block level: the nodes of a block (other than bind lhs-change nodes, which
+    [parLoop] runs first, one at a time) can be processed in any order: every order succeeds,
+    no error arises, and any two orders end in ≈-related states with the same [always] set. *)
+Theorem block_confluence fuel1 fuel2 p s B h o1 o2 :
+  block_ok s B h -> graph_ok s -> quiet p B -> o1 ≡ₚ B -> o2 ≡ₚ B ->
+  exists r1 r2, run_block fuel1 p s o1 = Ok r1 /\ run_block fuel2 p s o2 = Ok r2 /\
+                sim_blk r1 r2 /\ r1.1.2 = None.
+Proof.
+  intros Bo G Hq H1 H2. unfold run_block, run_block_acc.
+  assert (Ok : ok_state s B h) by (split; assumption).
+  assert (Hl1 : forall x, x ∈ o1 -> x ∈ B) by (intros x; rewrite H1; auto).
+  assert (Hl2 : forall x, x ∈ o2 -> x ∈ B) by (intros x; rewrite H2; auto).
+  destruct (run_total fuel1 p B h Hq o1 s None [] Ok Hl1) as (s1 & al1 & E1 & _).
+  assert (Hnd : NoDup o1) by (rewrite H1; apply (bo_nodup _ _ _ Bo)).
+  destruct (run_perm fuel1 p B h Hq o1 o2 s s None [] [] _ (Permutation_trans H1 (Permutation_sym H2)) Ok Hl1 Hnd
+              (sim_refl s) (Permutation_refl _) E1) as (r2 & E2 & S).
+  rewrite (run_block_fuel fuel1 fuel2 p B h Hq o2 s None [] Ok Hl2) in E2.
+  eexists _, r2. split; [exact E1|]. split; [exact E2|]. split; [exact S|reflexivity].
+Qed.
+
+(** * G. The pass *)
+
+(** ** taking the minimum block out of ≈ heaps *)
+Lemma scan_from_sim bs bs' : Forall2 Permutation bs bs' -> forall x, Heap.scan_from bs x = Heap.scan_from bs' x.
+Proof.
+  induction 1 as [|b b' bs bs' Hb _ IH]; intros x; [reflexivity|]. cbn [Heap.scan_from].
+  destruct b as [|a b], b' as [|a' b'].
+  - apply IH.
+  - apply Permutation_nil_l in Hb. discriminate.
+  - symmetry in Hb. apply Permutation_nil_l in Hb. discriminate.
+  - reflexivity.
+Qed.
+
+Lemma nextMinFrom_sim bs bs' c from : Forall2 Permutation bs bs' ->
+  Heap.nextMinFrom bs c from = Heap.nextMinFrom bs' c from.
+Proof.
+  intros H. unfold Heap.nextMinFrom. destruct (c =? 0); [reflexivity|].
+  rewrite (scan_from_sim _ _ (Forall2_drop _ _ _ _ H)). reflexivity.
+Qed.
+
+Lemma foldr_delete_perm (m : gmap nid Z) l l' : l ≡ₚ l' -> foldr delete m l = foldr delete m l'.
+Proof.
+  intros Hp. apply map_eq. intros k. rewrite !lookup_foldr_delete.
+  destruct (bool_decide (k ∈ l)) eqn:E.
+  - apply bool_decide_eq_true in E. rewrite Hp in E. rewrite bool_decide_eq_true_2 by exact E. reflexivity.
+  - apply bool_decide_eq_false in E. rewrite Hp in E. rewrite bool_decide_eq_false_2 by exact E. reflexivity.
+Qed.
+
+Lemma takeMinBlock_sim w v b w1 b' v1 : heap_sim w v ->
+  Heap.takeMinBlock w = (b, w1) -> Heap.takeMinBlock v = (b', v1) -> b ≡ₚ b' /\ heap_sim w1 v1.
+Proof.
+  intros Hs. pose proof Hs as [S1 S2 S3 S4 S5]. unfold Heap.takeMinBlock.
+  rewrite <- S2. rewrite <- (scan_from_sim _ _ (Forall2_drop _ _ _ _ S5)).
+  destruct (Heap.scan_from _ _) as [x|].
+  - intros [= <- <-] [= <- <-].
+    pose proof (heap_sim_bucket w v x Hs) as Hb.
+    assert (F : Forall2 Permutation (<[x:=[]]> (Heap.buckets w)) (<[x:=[]]> (Heap.buckets v))).
+    { apply Forall2_insert; [exact S5|reflexivity]. }
+    split; [exact Hb|]. constructor; cbn.
+    + rewrite S1. apply foldr_delete_perm, Hb.
+    + rewrite (nextMinFrom_sim _ _ _ _ F), S4, Hb. reflexivity.
+    + exact S3.
+    + rewrite S4, Hb. reflexivity.
+    + exact F.
+  - intros [= <- <-] [= <- <-]. split; [reflexivity|exact Hs].
+Qed.
+
+(** ** queueing keeps the heap invariant *)
+Lemma addAll_inv hf l : forall w w', HeapSpec.inv w -> (forall c, c ∈ l -> 0 <= hf c) -> addAll hf l w = Ok w' ->
+  HeapSpec.inv w' /\
+  forall n, n ∈ Heap.ids w' -> (n ∈ Heap.ids w /\ Heap.hinOf w' n = Heap.hinOf w n) \/ (n ∈ l /\ Heap.hinOf w' n = hf n).
+Proof.
+  induction l as [|c l IH]; intros w w' I Hh H.
+  - injection H as <-. split; [exact I|]. intros n Hn. left. auto.
+  - rewrite addAll_cons in H. apply rbind_ok in H as (w1 & H1 & H2).
+    assert (Hl : forall c0, c0 ∈ l -> 0 <= hf c0) by (intros; apply Hh; right; assumption).
+    unfold Heap.addIfNotPresent in H1. destruct (Heap.mem w c) eqn:Em.
+    + injection H1 as <-. destruct (IH _ _ I Hl H2) as (I' & Hids). split; [exact I'|].
+      intros n Hn. destruct (Hids n Hn) as [?|[? ?]]; [left; assumption|right; split; [right|]; assumption].
+    + destruct (heap_add_spec w c (hf c) I Em (Hh c ltac:(left))) as (w1' & A1 & I1 & P1 & Hin1).
+      rewrite A1 in H1. injection H1 as <-.
+      destruct (IH _ _ I1 Hl H2) as (I' & Hids). split; [exact I'|].
+      intros n Hn. destruct (Hids n Hn) as [[Hn1 E]|[Hn1 E]].
+      * rewrite P1 in Hn1. rewrite Hin1 in E. apply elem_of_cons in Hn1 as [->|Hn1].
+        -- right. rewrite decide_True in E by reflexivity. split; [left|exact E].
+        -- destruct (decide (n = c)) as [->|]; [right; split; [left|exact E]|left; auto].
+      * right. split; [right|]; assumption.
+Qed.
+
+Lemma has_of_parents s c q : q ∈ parents (nd s c) -> has s c.
+Proof.
+  intros H. unfold has. unfold nd in H. destruct (nodes s !! c); [eauto|]. cbn in H. inversion H.
+Qed.
+
+Lemma pushlist_children s n c : c ∈ pushlist s n -> c ∈ children (nd s n).
+Proof.
+  unfold pushlist. destruct (cutv s n); [intros H; inversion H|]. intros [_ H]%elem_of_list_filter. exact H.
+Qed.
+
+Lemma reads_below_ext s t n h : nodes t = nodes s -> binds t = binds s -> reads_below s n h -> reads_below t n h.
+Proof.
+  intros Hn Hb H a m Ha Hv.
+  assert (Hnd : forall x, nd t x = nd s x) by (intros x; apply nd_ext, Hn).
+  rewrite (reads_shape s t n) in Ha; [|intros x; left; apply Hnd|exact Hb].
+  rewrite (vsrc_shape s t a) in Hv by (intros x; rewrite Hnd; split; reflexivity).
+  rewrite Hnd. eapply H; eauto.
+Qed.
+
+(** ** a step keeps the pass invariant *)
+Lemma rnp_spec_pass_ok s B h n s1 e :
+  pass_ok s -> ok_state s B h -> n ∈ B -> rnp_spec s n = Ok (s1, e) -> pass_ok s1.
+Proof.
+  intros P Ok Hn H. destruct (rnp_spec_ok_state s B h n s1 e Ok Hn H) as [Bo1 G1].
+  destruct Ok as [Bo G].
+  assert (Hshape : same_shape s s1).
+  { intros m. rewrite (rnp_spec_nd s n s1 e m H). apply same_shape_afterLocal. }
+  assert (Hheight : forall m, height (nd s1 m) = height (nd s m)).
+  { intros m. apply (rnp_spec_proj height s n s1 e m); [|exact H]. intros; apply localF_frame. }
+  pose proof (rnp_spec_inv _ _ _ _ H) as (_ & w & Hw & Es1).
+  assert (Hhf : forall c, c ∈ pushlist s n -> 0 <= height (nd s c)).
+  { intros c Hc. apply (pushlist_height s n c h G (bo_height _ _ _ Bo n Hn) (bo_h _ _ _ Bo) Hc). }
+  destruct (addAll_inv _ _ _ _ (po_heap _ P) Hhf Hw) as (Iw & Hids).
+  assert (Hheap : heap s1 = w) by (rewrite Es1; reflexivity).
+  constructor.
+  - exact G1.
+  - rewrite Hheap. exact Iw.
+  - intros x Hx. rewrite Hheap in *. rewrite Hheight. split.
+    + apply (rnp_spec_has s n s1 e x H). destruct (Hids x Hx) as [[Hx0 _]|[Hx0 _]].
+      * apply (po_queued _ P x Hx0).
+      * apply (has_of_parents s x n). apply (go_edges _ G). apply pushlist_children, Hx0.
+    + destruct (Hids x Hx) as [[Hx0 ->]|[Hx0 ->]]; [apply (po_queued _ P x Hx0)|reflexivity].
+  - intros x. destruct (Hshape x) as [-> _]. apply (po_nolhs _ P).
+  - intros x. rewrite Hheight. apply (po_hrange _ P).
+  - intros x Hx a m Ha Hv. rewrite !Hheight in *.
+    rewrite (reads_shape s s1 x) in Ha; [|intros m'; right; apply Hshape|apply (rnp_spec_binds _ _ _ _ H)].
+    rewrite (vsrc_shape s s1 a Hshape) in Hv. eapply (po_reads _ P); eauto.
+  - rewrite Es1. cbn. apply (po_setDuring _ P).
+  - rewrite Es1. cbn. apply (po_setRemoved _ P).
+Qed.
+
+Lemma run_pass_ok fuel p B h (Hq : quiet p B) l : forall s e al r,
+  pass_ok s -> ok_state s B h -> (forall x, x ∈ l -> x ∈ B) ->
+  rfold (block_step fuel p) l (s, e, al) = Ok r -> pass_ok r.1.1 /\ r.1.2 = e.
+Proof.
+  induction l as [|n l IH]; intros s e al r P Ok Hl H.
+  - injection H as <-. split; [exact P|reflexivity].
+  - destruct (step_total fuel p B h Hq s e al n Ok (Hl n ltac:(left))) as (s1 & E1 & R1 & Ok1).
+    cbn [rfold] in H. rewrite E1 in H. cbn [rbind] in H.
+    eapply IH; [|exact Ok1| |exact H].
+    + eapply rnp_spec_pass_ok; [exact P|exact Ok|apply Hl; left|exact R1].
+    + intros; apply Hl; right; assumption.
+Qed.
+
+(** ** the block a pass takes *)
+Lemma block_of_pass s b w : pass_ok s -> Heap.takeMinBlock (heap s) = (b, w) ->
+  pass_ok (s <| heap := w |>) /\ exists h, ok_state (s <| heap := w |>) b h.
+Proof.
+  intros P Ht. destruct P as [G I Q NL HR RD SD SR].
+  destruct (heap_takeMinBlock_spec _ _ _ I Ht) as (Iw & Pw & Hmin & Hlt & Hnil & Hhin).
+  pose proof (inv_nodup _ I) as Hnd. rewrite Pw in Hnd. apply NoDup_app in Hnd as (Hndb & Hdisj & _).
+  assert (Gw : graph_ok (s <| heap := w |>)).
+  { destruct G as [G1 G2 G3 G4]. constructor; try assumption. cbn. apply (cnt_nonneg _ Iw). }
+  split.
+  - constructor; try assumption.
+    intros n Hn. cbn in Hn. cbn [heap set]. assert (Hn0 : n ∈ Heap.ids (heap s)) by (rewrite Pw; apply elem_of_app; auto).
+    destruct (Q n Hn0) as [Q1 Q2]. split; [exact Q1|].
+    change (Heap.hinOf w n = height (nd s n)). rewrite Hhin, bool_decide_eq_false_2; [exact Q2|].
+    intros Hb. exact (Hdisj n Hb Hn).
+    intros n Hn. apply (reads_below_ext s); [reflexivity|reflexivity|]. apply RD, Hn.
+  - assert (Hsub : forall n, n ∈ b -> n ∈ Heap.ids (heap s)) by (intros n Hn; rewrite Pw; apply elem_of_app; auto).
+    destruct b as [|n0 b0] eqn:Eb.
+    + exists 0. split; [|exact Gw]. constructor; try (intros n Hn; inversion Hn); [constructor|lia].
+    + set (h := Heap.hinOf (heap s) n0).
+      assert (Hall : forall n, n ∈ n0 :: b0 -> height (nd s n) = h).
+      { intros n Hn. destruct (Q n (Hsub n Hn)) as [_ <-]. unfold h.
+        pose proof (Hmin n n0 Hn (Hsub n0 ltac:(left))). pose proof (Hmin n0 n ltac:(left) (Hsub n Hn)). lia. }
+      exists h. split; [|exact Gw]. constructor.
+      * exact Hndb.
+      * unfold h. destruct (Q n0 (Hsub n0 ltac:(left))) as [_ ->]. 
+        assert (0 <= Heap.hinOf (heap s) n0); [|destruct (Q n0 (Hsub n0 ltac:(left))) as [_ <-]; assumption].
+        pose proof (Hsub n0 ltac:(left)) as Hin. apply elem_ids in Hin as [x Hx].
+        rewrite (hinOf_bucket _ _ _ I Hx). lia.
+      * intros n Hn. apply (Q n (Hsub n Hn)).
+      * exact Hall.
+      * intros n _. apply NL.
+      * intros n Hn. apply (reads_below_ext s); [reflexivity|reflexivity|]. rewrite <- (Hall n Hn). apply RD. rewrite (Hall n Hn).
+        unfold h. pose proof (Hsub n0 ltac:(left)) as Hin. apply elem_ids in Hin as [x Hx].
+        rewrite (hinOf_bucket _ _ _ I Hx). lia.
+Qed.
+
+Lemma isLhsNode_is_lhs s n : isLhsNode s n = is_lhs (nkind (nd s n)).
+Proof. reflexivity. Qed.
+
+Lemma parts_nolhs s b : (forall n, is_lhs (nkind (nd s n)) = false) -> lhs_part s b = [] /\ rest_part s b = b.
+Proof.
+  intros H. unfold lhs_part, rest_part. induction b as [|n b [IH1 IH2]]; [split; reflexivity|].
+  rewrite !filter_cons, IH1, IH2, isLhsNode_is_lhs, H.
+  rewrite decide_False by discriminate. rewrite decide_True by reflexivity. split; reflexivity.
+Qed.
+
+Lemma sim_set_heap s s' w w' : s ≈ s' -> heap_sim w w' -> (s <| heap := w |>) ≈ (s' <| heap := w' |>).
+Proof. intros [] Hw. constructor; cbn; assumption. Qed.
+
+Lemma parLoopS_sim sched1 sched2 p : fair sched1 -> fair sched2 -> quiet_all p ->
+  forall fuel s s' al al' r, pass_ok s -> pass_ok s' -> s ≈ s' -> al ≡ₚ al' ->
+  parLoopS sched1 fuel p s al = Ok r ->
+  exists r', parLoopS sched2 fuel p s' al' = Ok r' /\ sim_blk r r' /\
+             pass_ok r.1.1 /\ pass_ok r'.1.1 /\ r.1.2 = None.
+Proof.
+  intros F1 F2 Hq. induction fuel as [|fuel IH]; intros s s' al al' r P P' Hs Hal H; [discriminate|].
+  cbn [parLoopS] in *. rewrite <- (hs_cnt _ _ (sim_heap _ _ Hs)).
+  destruct (Heap.cnt (heap s) <=? 0).
+  { injection H as <-. eexists. split; [reflexivity|]. cbn. split; [|auto]. split; [exact Hs|]. split; [reflexivity|exact Hal]. }
+  destruct (Heap.takeMinBlock (heap s)) as [b w] eqn:Et.
+  destruct (Heap.takeMinBlock (heap s')) as [b' w'] eqn:Et'.
+  destruct (takeMinBlock_sim _ _ _ _ _ _ (sim_heap _ _ Hs) Et Et') as [Hb Hw].
+  destruct (block_of_pass s b w P Et) as (Pw & h & Okb).
+  destruct (block_of_pass s' b' w' P' Et') as (Pw' & h' & Okb').
+  set (sw := s <| heap := w |>) in *. set (sw' := s' <| heap := w' |>) in *.
+  assert (Hsw : sw ≈ sw') by (apply sim_set_heap; assumption).
+  destruct (parts_nolhs sw b (po_nolhs _ Pw)) as [L1 L2]. rewrite L1, L2 in H.
+  destruct (parts_nolhs sw' b' (po_nolhs _ Pw')) as [L1' L2']. rewrite L1', L2'.
+  cbn [app] in *. unfold run_block_acc in *.
+  apply rbind_ok in H as ([[s1 e1] al1] & H1 & H).
+  assert (Hqb : quiet p b) by (intros n wh _; apply Hq).
+  assert (Hqb' : quiet p b') by (intros n wh _; apply Hq).
+  assert (Hl1 : forall x, x ∈ sched1 sw b -> x ∈ b) by (intros x; rewrite (F1 sw b); auto).
+  assert (Hl2 : forall x, x ∈ sched2 sw' b' -> x ∈ b') by (intros x; rewrite (F2 sw' b'); auto).
+  destruct (run_pass_ok fuel p b h Hqb _ _ _ _ _ Pw Okb Hl1 H1) as [P1 E1]. cbn in P1, E1. subst e1.
+  assert (Hperm : sched1 sw b ≡ₚ sched2 sw' b') by (rewrite (F1 sw b), (F2 sw' b'); exact Hb).
+  assert (Hnd : NoDup (sched1 sw b)) by (rewrite (F1 sw b); apply (bo_nodup _ _ _ (proj1 Okb))).
+  destruct (run_perm fuel p b h Hqb _ _ sw sw' None al al' _ Hperm Okb Hl1 Hnd Hsw Hal H1)
+    as ([[s1' e1'] al1'] & H1' & S1 & S2 & S3). cbn in S1, S2, S3. subst e1'.
+  destruct (run_pass_ok fuel p b' h' Hqb' _ _ _ _ _ Pw' Okb' Hl2 H1') as [P1' _]. cbn in P1'.
+  rewrite H1'. cbn [rbind]. change (parLoopS sched1 fuel p s1 al1 = Ok r) in H.
+  eapply (IH s1 s1' al1 al1'); eassumption.
+Qed.
+
+(** ** the deferred requeue of always nodes *)
+Lemma requeue_char al : forall t,
+  rfold (fun s n => if (height (nd s n) =? unset) || inHeap s n then Ok s else heapAdd s n) al t =
+  (w <-! addAll (fun c => height (nd t c)) (filter (fun n => height (nd t n) <> unset) al) (heap t); Ok (t <| heap := w |>)).
+Proof.
+  induction al as [|c al IH]; intros t.
+  - cbn. rewrite set_heap_same. reflexivity.
+  - cbn [rfold]. rewrite filter_cons. destruct (Z.eqb_spec (height (nd t c)) unset) as [E|E].
+    + rewrite decide_False by (intros X; apply X, E). cbn [orb rbind]. apply IH.
+    + rewrite decide_True by exact E. rewrite addAll_cons. unfold Heap.addIfNotPresent, inHeap.
+      destruct (Heap.mem (heap t) c) eqn:Em; cbn [orb rbind].
+      * apply IH.
+      * unfold heapAdd. destruct (Heap.add (heap t) c (height (nd t c))) as [w| |]; cbn [rbind]; try reflexivity.
+        rewrite IH. cbn. destruct (addAll _ _ w); cbn; reflexivity.
+Qed.
+
+(** ** the end of the pass *)
+Definition handlerEv (s : state) (k : nid) : event :=
+  match obs s !! k with Some n => EvObsUpd k (valueOf s n) | None => EvUpd k end.
+
+Lemma foldl_handlers ks : forall s,
+  foldl (fun s k => match obs s !! k with
+                    | Some n => emit (EvObsUpd k (valueOf s n)) s
+                    | None => emit (EvUpd k) s
+                    end) s ks = s <| log := rev (map (handlerEv s) ks) ++ log s |>.
+Proof.
+  induction ks as [|k ks IH]; intros s; cbn [foldl map rev].
+  - destruct s; reflexivity.
+  - assert ((match obs s !! k with Some n => emit (EvObsUpd k (valueOf s n)) s | None => emit (EvUpd k) s end)
+            = emit (handlerEv s k) s) as -> by (unfold handlerEv; destruct (obs s !! k); reflexivity).
+    rewrite IH.
+    assert (map (handlerEv (emit (handlerEv s k) s)) ks = map (handlerEv s) ks) as ->.
+    { apply map_ext. intros a. unfold handlerEv. change (obs (emit _ s)) with (obs s).
+      destruct (obs s !! a); [rewrite valueOf_emit|]; reflexivity. }
+    rewrite <- app_assoc. destruct s; reflexivity.
+Qed.
+
+Definition endEvs (s : state) (e : option err) : list event :=
+  rev (map (handlerEv s) (handlers s)) ++ [EvPassEnd (classify e)].
+
+Lemma handlerEv_ext s t k : nodes t = nodes s -> obs t = obs s -> handlerEv t k = handlerEv s k.
+Proof. intros Hn Ho. unfold handlerEv. rewrite Ho. destruct (obs s !! k); [rewrite (valueOf_ext t s _ Hn)|]; reflexivity. Qed.
+
+Lemma stabilizeEnd_char s e : setDuring s = [] -> setRemoved s = [] ->
+  stabilizeEnd s e = Ok (s <| log := endEvs s e ++ log s |> <| status := 0 |> <| stabNum := stabNum s + 1 |>
+                           <| handlers := [] |> <| setDuring := [] |> <| setRemoved := [] |>).
+Proof.
+  intros Hd Hr. unfold stabilizeEnd, runUpdateHandlers. rewrite foldl_handlers.
+  unfold applyDeferredSets. cbn [setRemoved setDuring set emit]. cbn. rewrite Hr, Hd. cbn.
+  apply f_equal. apply state_ext; cbn; try reflexivity.
+  unfold endEvs. rewrite <- app_assoc. cbn.
+  f_equal. f_equal. apply map_ext. intros k. apply handlerEv_ext; reflexivity.
+Qed.
+
+Lemma stabilizeEnd_sim s s' e t : s ≈ s' -> setDuring s = [] -> setRemoved s = [] ->
+  stabilizeEnd s e = Ok t -> exists t', stabilizeEnd s' e = Ok t' /\ t ≈ t'.
+Proof.
+  intros Hs Hd Hr H. rewrite (stabilizeEnd_char s e Hd Hr) in H. injection H as <-.
+  destruct Hs as [Sn Sb Snx Sr So Sh Sa Si Sst Sstat Snn Ssd Ssr Shd Smx Sl].
+  rewrite (stabilizeEnd_char s' e) by congruence. eexists. split; [reflexivity|].
+  constructor; cbn; try assumption; try reflexivity.
+  - rewrite Sst. reflexivity.
+  - unfold endEvs. rewrite Shd.
+    rewrite (map_ext (handlerEv s) (handlerEv s')) by (intros k; symmetry; apply handlerEv_ext; congruence).
+    apply Permutation_app_head. exact Sl.
+Qed.
+
+Lemma pass_ok_core s t : nodes t = nodes s -> binds t = binds s -> heap t = heap s -> stabNum t = stabNum s ->
+  setDuring t = setDuring s -> setRemoved t = setRemoved s -> pass_ok s -> pass_ok t.
+Proof.
+  intros Hn Hb Hh Hst Hd Hr [G I Q NL HR RD SD SR].
+  assert (Hnd : forall x, nd t x = nd s x) by (intros x; apply nd_ext, Hn).
+  constructor.
+  - destruct G as [G1 G2 G3 G4]. constructor.
+    + rewrite Hh. exact G1.
+    + intros n c. rewrite !Hnd. apply G2.
+    + intros c q. rewrite !Hnd. apply G3.
+    + intros x. rewrite Hnd, Hst. apply G4.
+  - rewrite Hh. exact I.
+  - intros n. rewrite Hh, Hn, Hnd. apply Q.
+  - intros n. rewrite Hnd. apply NL.
+  - intros n. rewrite Hnd. apply HR.
+  - intros n. rewrite Hnd. intros H0. apply (reads_below_ext s); auto.
+  - congruence.
+  - congruence.
+Qed.
+
+(** ** C04, pass level: on a bind-free graph the result of ParallelStabilize does not depend on
+    the order in which the nodes of each height block are processed. *)
+Theorem pass_schedule_independent sched1 sched2 p s t e :
+  fair sched1 -> fair sched2 -> quiet_all p -> pass_ok s ->
+  parStabilizeS sched1 p s = Ok (t, e) ->
+  exists t', parStabilizeS sched2 p s = Ok (t', e) /\ t ≈ t' /\ (status s = 0 -> e = None).
+Proof.
+  intros F1 F2 Hq P H. unfold parStabilizeS in *.
+  destruct (Z.eqb_spec (status s) 0) as [Est|Est]; cbn [negb] in *.
+  2: { injection H as <- <-. exists s. split; [reflexivity|]. split; [apply sim_refl|contradiction]. }
+  set (s0 := emit EvPassStart (s <| status := 1 |>)) in *.
+  assert (P0 : pass_ok s0) by (apply (pass_ok_core s); auto).
+  apply rbind_ok in H as ([[s1 e1] al1] & H1 & H).
+  destruct (parLoopS_sim sched1 sched2 p F1 F2 Hq _ s0 s0 [] [] _ P0 P0 (sim_refl _) (Permutation_refl _) H1)
+    as ([[s1' e1'] al1'] & H1' & (S1 & S2 & S3) & P1 & P1' & E1). cbn in S1, S2, S3, P1, P1', E1. subst e1 e1'.
+  rewrite H1'. cbn [rbind].
+  apply rbind_ok in H as (s2 & H2 & H). apply rbind_ok in H as (s3 & H3 & [= <- <-]).
+  rewrite requeue_char in H2. apply rbind_ok in H2 as (w2 & Hw2 & [= <-]).
+  rewrite requeue_char.
+  assert (Hnd : forall x, nd s1' x = nd s1 x) by (intros x; symmetry; apply nd_ext, (sim_nodes _ _ S1)).
+  assert (Hfil : filter (fun n => height (nd s1 n) <> unset) al1 ≡ₚ filter (fun n => height (nd s1' n) <> unset) al1').
+  { rewrite S3. apply Permutation_refl'. apply list_filter_iff. intros x. rewrite Hnd. reflexivity. }
+  assert (Hpos : forall c, c ∈ filter (fun n => height (nd s1 n) <> unset) al1 -> 0 <= height (nd s1 c)).
+  { intros c [Hc _]%elem_of_list_filter. pose proof (po_hrange _ P1 c). unfold unset in Hc. lia. }
+  destruct (addAll_perm _ _ _ Hfil _ (heap s1') _ Hpos (go_cnt _ (po_graph _ P1)) (sim_heap _ _ S1) Hw2)
+    as (w2' & Hw2' & Sw2).
+  rewrite (addAll_ext _ (fun c => height (nd s1 c))) by (intros; apply f_equal, Hnd).
+  rewrite Hw2'. cbn [rbind].
+  assert (S2' : (s1 <| heap := w2 |>) ≈ (s1' <| heap := w2' |>)) by (apply sim_set_heap; assumption).
+  destruct (stabilizeEnd_sim _ _ None s3 S2' (po_setDuring _ P1) (po_setRemoved _ P1) H3) as (s3' & H3' & S3').
+  rewrite H3'. cbn [rbind]. exists s3'. split; [reflexivity|]. split; [exact S3'|reflexivity].
+Qed.
+
+Lemma parLoopS_queue_order fuel : forall p s al, parLoopS queue_order fuel p s al = parLoop fuel p s al.
+Proof.
+  induction fuel as [|fuel IH]; intros p s al; [reflexivity|]. cbn [parLoopS parLoop].
+  destruct (Heap.cnt (heap s) <=? 0); [reflexivity|]. destruct (Heap.takeMinBlock (heap s)) as [b w].
+  unfold run_block_acc, queue_order, lhs_part, rest_part, isLhsNode, block_step.
+  destruct (rfold _ _ _) as [[[s1 e1] al1]| |]; cbn [rbind]; try reflexivity.
+  destruct e1; [reflexivity|apply IH].
+Qed.
+
+Lemma parStabilizeS_queue_order p s : parStabilizeS queue_order p s = parStabilize p s.
+Proof. unfold parStabilizeS, parStabilize. rewrite parLoopS_queue_order. reflexivity. Qed.
+
+(** ** what ≈ preserves: everything observable *)
+Lemma ids_sim w v : heap_sim w v -> Heap.ids w ≡ₚ Heap.ids v.
+Proof.
+  intros H. unfold Heap.ids. induction (hs_buckets _ _ H) as [|b b' bs bs' Hb _ IH]; [reflexivity|].
+  cbn. rewrite Hb, IH. reflexivity.
+Qed.
+
+Theorem sim_observables s s' : s ≈ s' ->
+  (forall n, valueOf s n = valueOf s' n) /\ (forall n, nd s n = nd s' n) /\
+  obs s = obs s' /\ reg s = reg s' /\ numNodes s = numNodes s' /\ binds s = binds s' /\
+  Heap.ids (heap s) ≡ₚ Heap.ids (heap s') /\ (forall n, inHeap s n = inHeap s' n) /\
+  updEvents s ≡ₚ updEvents s'.
+Proof.
+  intros [Sn Sb Snx Sr So Sh Sa Si Sst Sstat Snn Ssd Ssr Shd Smx Sl].
+  split; [intros n; apply valueOf_ext, Sn|]. split; [intros n; apply nd_ext, Sn|].
+  repeat (split; [assumption|]).
+  split; [apply ids_sim, Sh|]. split; [intros n; apply heap_sim_mem, Sh|].
+  unfold updEvents. rewrite Sl. reflexivity.
+Qed.
+
+(** * H. Soundness of the boolean hypotheses *)
+Lemma elem_nodeIds s n : n ∈ nodeIds s <-> has s n.
+Proof.
+  unfold nodeIds, has. rewrite elem_of_list_fmap. split.
+  - intros ([k x] & -> & Hx). apply elem_of_map_to_list in Hx. cbn. eauto.
+  - intros [x Hx]. exists (n, x). split; [reflexivity|]. apply elem_of_map_to_list. exact Hx.
+Qed.
+
+Lemma forall_nodes (P : nid -> Prop) s (Q : nid -> bool) :
+  forallb Q (nodeIds s) = true -> (forall n, Q n = true -> P n) -> (forall n, ~ has s n -> P n) -> forall n, P n.
+Proof.
+  intros HQ HP Hd n. destruct (decide (n ∈ nodeIds s)) as [Hin|Hnin].
+  - apply HP. rewrite forallb_forall in HQ. apply HQ, elem_of_list_In, Hin.
+  - apply Hd. rewrite <- elem_nodeIds. exact Hnin.
+Qed.
+
+Lemma nd_missing s n : ~ has s n -> nd s n = dummy.
+Proof. unfold has, nd. intros H. destruct (nodes s !! n); [exfalso; apply H; eauto|reflexivity]. Qed.
+
+Lemma graph_okb_sound s : graph_okb s = true -> graph_ok s.
+Proof.
+  unfold graph_okb. rewrite !andb_true_iff. intros ((((H1 & H0) & H2) & H3) & H4).
+  constructor.
+  - lia.
+  - intros n. apply (forall_nodes (fun n => forall c, c ∈ children (nd s n) -> n ∈ parents (nd s c)) s _ H2).
+    + intros m Hm c Hc. rewrite forallb_forall in Hm. apply elem_of_list_In, Hm in Hc.
+      apply bool_decide_eq_true in Hc. exact Hc.
+    + intros m Hm c Hc. rewrite (nd_missing _ _ Hm) in Hc. inversion Hc.
+  - intros c. apply (forall_nodes (fun c => forall q, q ∈ parents (nd s c) -> height (nd s q) < height (nd s c)) s _ H3).
+    + intros m Hm q Hq. rewrite forallb_forall in Hm. apply elem_of_list_In, Hm in Hq. lia.
+    + intros m Hm q Hq. rewrite (nd_missing _ _ Hm) in Hq. inversion Hq.
+  - apply (forall_nodes (fun x => changedAt (nd s x) <= stabNum s) s _ H4).
+    + intros m Hm. lia.
+    + intros m Hm. rewrite (nd_missing _ _ Hm). cbn. lia.
+Qed.
+
+Lemma reads_belowb_sound s n h : reads_belowb s n h = true -> reads_below s n h.
+Proof.
+  unfold reads_belowb. rewrite forallb_forall. intros H a m Ha Hv.
+  apply elem_of_list_In, H in Ha. rewrite Hv in Ha. lia.
+Qed.
+
+Lemma block_okb_sound s B h : block_okb s B h = true -> block_ok s B h.
+Proof.
+  unfold block_okb. rewrite !andb_true_iff. intros ((H1 & H2) & H3).
+  apply bool_decide_eq_true in H1. rewrite forallb_forall in H3.
+  assert (H : forall n, n ∈ B -> is_Some (nodes s !! n) /\ height (nd s n) = h /\
+                                 is_lhs (nkind (nd s n)) = false /\ reads_below s n h).
+  { intros n Hn. apply elem_of_list_In, H3 in Hn. rewrite !andb_true_iff in Hn.
+    destruct Hn as (((A1 & A2) & A3) & A4). apply bool_decide_eq_true in A1.
+    split; [exact A1|]. split; [lia|]. split; [destruct (is_lhs _); [discriminate|reflexivity]|].
+    apply reads_belowb_sound, A4. }
+  constructor; try (intros n Hn; apply (H n Hn)); [exact H1|lia].
+Qed.
+
+Lemma elem_ibuckets w k b : (k, b) ∈ ibuckets w <-> Heap.buckets w !! k = Some b.
+Proof.
+  unfold ibuckets. rewrite elem_of_lookup_imap. split.
+  - intros (i & x & [= -> ->] & Hx). exact Hx.
+  - intros H. exists k, b. auto.
+Qed.
+
+Lemma heap_invb_sound w : heap_invb w = true -> HeapSpec.inv w.
+Proof.
+  unfold heap_invb. rewrite !andb_true_iff. intros ((((H1 & H2) & H3) & H4) & H5).
+  apply bool_decide_eq_true in H1. rewrite forallb_forall in H2, H3.
+  assert (Hb : forall k n, n ∈ Heap.bucket w k -> Heap.hin w !! n = Some (Z.of_nat k)).
+  { intros k n Hn. unfold Heap.bucket in Hn. destruct (Heap.buckets w !! k) as [b|] eqn:Eb; [|inversion Hn].
+    cbn in Hn. specialize (H3 (k, b)). cbn in H3. rewrite forallb_forall in H3.
+    apply (proj1 (bool_decide_eq_true _)). apply H3; [|apply elem_of_list_In, Hn].
+    apply elem_of_list_In, elem_ibuckets, Eb. }
+  constructor.
+  - exact H1.
+  - intros n x. split.
+    + intros Hx. specialize (H2 (n, x)). cbn in H2. rewrite andb_true_iff in H2.
+      destruct H2 as [A1 A2]; [apply elem_of_list_In, elem_of_map_to_list, Hx|].
+      apply bool_decide_eq_true in A2. split; [lia|exact A2].
+    + intros [Hx Hn]. rewrite (Hb _ _ Hn). f_equal. lia.
+  - lia.
+  - intros Hpos. destruct (Z.ltb_spec 0 (Heap.cnt w)); [|lia].
+    rewrite !andb_true_iff in H5. destruct H5 as ((A1 & A2) & A3). rewrite forallb_forall in A3.
+    split; [lia|]. split; [|lia].
+    intros k Hk. unfold Heap.bucket in Hk. destruct (Heap.buckets w !! k) as [b|] eqn:Eb; [|contradiction].
+    cbn in Hk. specialize (A3 (k, b)). cbn in A3. destruct b; [contradiction|].
+    rewrite andb_true_iff in A3. destruct A3; [apply elem_of_list_In, elem_ibuckets, Eb|]. lia.
+Qed.
+
+Lemma pass_okb_sound s : pass_okb s = true -> pass_ok s.
+Proof.
+  unfold pass_okb. rewrite !andb_true_iff. intros (((((H1 & H2) & H3) & H4) & H5) & H6).
+  apply bool_decide_eq_true in H5, H6. rewrite forallb_forall in H3.
+  assert (H : forall n, is_lhs (nkind (nd s n)) = false /\ -1 <= height (nd s n) /\
+                        (0 <= height (nd s n) -> reads_below s n (height (nd s n)))).
+  { apply (forall_nodes _ s _ H4).
+    - intros n Hn. rewrite !andb_true_iff, orb_true_iff in Hn. destruct Hn as ((A1 & A2) & A3).
+      split; [destruct (is_lhs _); [discriminate|reflexivity]|]. split; [lia|].
+      intros Hh. destruct A3 as [A3|A3]; [lia|apply reads_belowb_sound, A3].
+    - intros n Hn. rewrite (nd_missing _ _ Hn). cbn. split; [reflexivity|]. unfold unset. split; [lia|]. intros X. lia. }
+  constructor; try assumption; try (intros n; apply (H n)).
+  - apply graph_okb_sound, H1.
+  - apply heap_invb_sound, H2.
+  - intros n Hn. apply elem_of_list_In, H3 in Hn. rewrite andb_true_iff in Hn. destruct Hn as [A1 A2].
+    apply bool_decide_eq_true in A1. split; [exact A1|lia].
+Qed.
+
+(** the model's own schedule (queue order) against any other *)
+Corollary parStabilize_any_schedule sched p s t e :
+  fair sched -> quiet_all p -> pass_ok s -> parStabilize p s = Ok (t, e) ->
+  exists t', parStabilizeS sched p s = Ok (t', e) /\ t ≈ t'.
+Proof.
+  intros F Hq P H. rewrite <- parStabilizeS_queue_order in H.
+  destruct (pass_schedule_independent queue_order sched p s t e) as (t' & H' & S & _); auto.
+  - intros s0 b. reflexivity.
+  - eauto.
 Qed.
